@@ -1,52 +1,160 @@
 #![allow(unused)]
 fn mk<T>() -> T { unimplemented!() }
 
-pub fn p2() {
+pub fn p14() {
+    let a: re::math::mat::Mat4x4<re::render::ModelToProj> = mk();
+    let b: re::math::mat::Mat4x4<re::math::mat::RealToProj<re::render::Model>> = mk();
+    let _ = [a, b];
+}
+
+pub fn p17() {
+    let a: re::math::mat::Mat4x4<re::render::ModelToProj> = mk();
+    let b: re::math::point::Point3<re::render::Model> = mk();
+    let _ = a.apply(&b);
+}
+
+pub fn p24() {
+    let a: re::math::mat::Mat4x4<re::render::ModelToProj> = mk();
+    let _ = re::render::cam::Camera::new((8, 8)).mode(a.to());
+}
+
+pub fn p28() {
+    let a: re::math::mat::Mat4x4<re::render::ModelToView> = mk();
+    let b: re::math::mat::Mat4x4<re::render::ViewToProj> = mk();
+    let _ = a.then(&b);
+}
+
+pub fn p31() {
+    let a: re::math::mat::Mat4x4<re::render::ModelToView> = mk();
+    let b: re::math::mat::Mat4x4<re::math::mat::RealToReal<3, re::render::Model, re::render::View>> = mk();
+    let _ = [a, b];
+}
+
+pub fn p43() {
+    let a: re::math::mat::Mat4x4<re::render::ModelToView> = mk();
+    let b: re::math::point::Point3<re::render::Model> = mk();
+    let _ = a.apply_pt(&b);
+}
+
+pub fn p49() {
+    let a: re::math::mat::Mat4x4<re::render::ModelToView> = mk();
+    let _ = re::render::cam::Camera::new((8, 8)).mode(a.to());
+}
+
+pub fn p54() {
+    let a: re::math::mat::Mat4x4<re::render::ModelToWorld> = mk();
+    let b: re::math::mat::Mat4x4<re::render::WorldToView> = mk();
+    let _ = a.then(&b);
+}
+
+pub fn p57() {
+    let a: re::math::mat::Mat4x4<re::render::ModelToWorld> = mk();
+    let b: re::math::mat::Mat4x4<re::math::mat::RealToReal<3, re::render::Model, re::render::World>> = mk();
+    let _ = [a, b];
+}
+
+pub fn p68() {
+    let a: re::math::mat::Mat4x4<re::render::ModelToWorld> = mk();
+    let b: re::math::point::Point3<re::render::Model> = mk();
+    let _ = a.apply_pt(&b);
+}
+
+pub fn p74() {
+    let a: re::math::mat::Mat4x4<re::render::ModelToWorld> = mk();
+    let _ = re::render::cam::Camera::new((8, 8)).mode(a.to());
+}
+
+pub fn p90() {
+    let a: re::math::mat::Mat4x4<re::render::ViewToProj> = mk();
+    let b: re::math::mat::Mat4x4<re::math::mat::RealToProj<re::render::View>> = mk();
+    let _ = [a, b];
+}
+
+pub fn p94() {
+    let a: re::math::mat::Mat4x4<re::render::ViewToProj> = mk();
+    let b: re::math::point::Point3<re::render::View> = mk();
+    let _ = a.apply(&b);
+}
+
+pub fn p99() {
+    let a: re::math::mat::Mat4x4<re::render::ViewToProj> = mk();
+    let _ = re::render::cam::Camera::new((8, 8)).mode(a.to());
+}
+
+pub fn p103() {
+    let a: re::math::mat::Mat4x4<re::render::WorldToView> = mk();
+    let b: re::math::mat::Mat4x4<re::render::ViewToProj> = mk();
+    let _ = a.then(&b);
+}
+
+pub fn p112() {
+    let a: re::math::mat::Mat4x4<re::render::WorldToView> = mk();
+    let b: re::math::mat::Mat4x4<re::math::mat::RealToReal<3, re::render::World, re::render::View>> = mk();
+    let _ = [a, b];
+}
+
+pub fn p122() {
+    let a: re::math::mat::Mat4x4<re::render::WorldToView> = mk();
+    let b: re::math::point::Point3<re::render::World> = mk();
+    let _ = a.apply_pt(&b);
+}
+
+pub fn p123() {
+    let a: re::math::mat::Mat4x4<re::render::WorldToView> = mk();
+    let _ = re::render::cam::Camera::new((8, 8)).mode(a);
+}
+
+pub fn p124() {
+    let a: re::math::mat::Mat4x4<re::render::WorldToView> = mk();
+    let _ = re::render::cam::Camera::new((8, 8)).mode(a.to());
+}
+
+pub fn p127() {
     let a: re::math::angle::Angle = mk();
     let b: re::math::angle::Angle = mk();
     let _ = a + b;
 }
 
-pub fn p3() {
+pub fn p128() {
     let a: re::math::angle::Angle = mk();
     let b: re::math::angle::Angle = mk();
     let _ = a % b;
 }
 
-pub fn p4() {
+pub fn p129() {
     let a: re::math::angle::Angle = mk();
     let b: re::math::angle::Angle = mk();
     let _ = a - b;
 }
 
-pub fn p8() {
+pub fn p133() {
     let a: re::math::angle::Angle = mk();
     let b: f32 = mk();
     let _ = a / b;
 }
 
-pub fn p9() {
+pub fn p134() {
     let a: re::math::angle::Angle = mk();
     let b: f32 = mk();
     let _ = a * b;
 }
 
-pub fn p10() {
+pub fn p135() {
     let a: re::math::angle::Angle = mk();
     let _ = re::math::angle::polar(1.0, a);
 }
 
-pub fn p11() {
+pub fn p136() {
     let a: re::math::angle::Angle = mk();
     let _ = re::math::mat::rotate_x(a);
 }
 
-pub fn p12() {
+pub fn p137() {
     let a: re::math::angle::Angle = mk();
     let _ = re::math::angle::Angle::sin(a);
 }
 
-pub fn p13() {
+pub fn p138() {
     let a: re::math::color::Color3f<re::math::color::Hsl> = mk();
     let b: re::math::color::Color3f<re::math::color::Hsl> = mk();
     let c: re::math::color::Color3f<re::math::color::Hsl> = mk();
@@ -54,53 +162,53 @@ pub fn p13() {
     let _ = re::math::space::Affine::add(&c, &d);
 }
 
-pub fn p17() {
+pub fn p142() {
     let a: re::math::color::Color3f<re::math::color::Hsl> = mk();
     let b: re::math::color::Color3f<re::math::color::Hsl> = mk();
     let _ = re::math::space::Affine::add(&a, &b);
 }
 
-pub fn p18() {
+pub fn p143() {
     let a: re::math::color::Color3f<re::math::color::Hsl> = mk();
     let b: re::math::color::Color3f<re::math::color::Hsl> = mk();
     let _ = re::math::space::Affine::sub(&a, &b);
 }
 
-pub fn p19() {
+pub fn p144() {
     let a: re::math::color::Color3f<re::math::color::Hsl> = mk();
     let b: re::math::color::Color3f<re::math::color::Hsl> = mk();
     let _ = re::math::Lerp::lerp(&a, &b, 0.5);
 }
 
-pub fn p38() {
+pub fn p163() {
     let a: re::math::color::Color3f<re::math::color::Hsl> = mk();
     let _ = a.to_rgb();
 }
 
-pub fn p47() {
+pub fn p172() {
     let a: re::math::color::Color3f<re::math::color::LinRgb> = mk();
     let b: re::math::color::Color3f<re::math::color::LinRgb> = mk();
     let _ = re::math::space::Affine::add(&a, &b);
 }
 
-pub fn p48() {
+pub fn p173() {
     let a: re::math::color::Color3f<re::math::color::LinRgb> = mk();
     let b: re::math::color::Color3f<re::math::color::LinRgb> = mk();
     let _ = re::math::space::Affine::sub(&a, &b);
 }
 
-pub fn p49() {
+pub fn p174() {
     let a: re::math::color::Color3f<re::math::color::LinRgb> = mk();
     let b: re::math::color::Color3f<re::math::color::LinRgb> = mk();
     let _ = re::math::Lerp::lerp(&a, &b, 0.5);
 }
 
-pub fn p53() {
+pub fn p178() {
     let a: re::math::color::Color3f<re::math::color::LinRgb> = mk();
     let _ = a.to_srgb();
 }
 
-pub fn p70() {
+pub fn p195() {
     let a: re::math::color::Color3f<re::math::color::Rgb> = mk();
     let b: re::math::color::Color3f<re::math::color::Rgb> = mk();
     let c: re::math::color::Color3f<re::math::color::Rgb> = mk();
@@ -108,45 +216,45 @@ pub fn p70() {
     let _ = re::math::space::Affine::add(&c, &d);
 }
 
-pub fn p73() {
+pub fn p198() {
     let a: re::math::color::Color3f<re::math::color::Rgb> = mk();
     let b: re::math::color::Color3f<re::math::color::Rgb> = mk();
     let _ = re::math::space::Affine::add(&a, &b);
 }
 
-pub fn p74() {
+pub fn p199() {
     let a: re::math::color::Color3f<re::math::color::Rgb> = mk();
     let b: re::math::color::Color3f<re::math::color::Rgb> = mk();
     let _ = re::math::space::Affine::sub(&a, &b);
 }
 
-pub fn p75() {
+pub fn p200() {
     let a: re::math::color::Color3f<re::math::color::Rgb> = mk();
     let b: re::math::color::Color3f<re::math::color::Rgb> = mk();
     let _ = re::math::Lerp::lerp(&a, &b, 0.5);
 }
 
-pub fn p84() {
+pub fn p209() {
     let a: re::math::color::Color3f<re::math::color::Rgb> = mk();
     let _ = a.to_color3();
 }
 
-pub fn p85() {
+pub fn p210() {
     let a: re::math::color::Color3f<re::math::color::Rgb> = mk();
     let _ = a.to_hsl();
 }
 
-pub fn p86() {
+pub fn p211() {
     let a: re::math::color::Color3f<re::math::color::Rgb> = mk();
     let _ = a.to_linear();
 }
 
-pub fn p87() {
+pub fn p212() {
     let a: re::math::color::Color3f<re::math::color::Rgb> = mk();
     let _ = a.to_rgba();
 }
 
-pub fn p100() {
+pub fn p225() {
     let a: re::math::color::Color3<re::math::color::Hsl> = mk();
     let b: re::math::color::Color3<re::math::color::Hsl> = mk();
     let c: re::math::color::Color3<re::math::color::Hsl> = mk();
@@ -154,12 +262,12 @@ pub fn p100() {
     let _ = re::math::space::Affine::add(&c, &d);
 }
 
-pub fn p106() {
+pub fn p231() {
     let a: re::math::color::Color3<re::math::color::Hsl> = mk();
     let _ = a.to_rgb();
 }
 
-pub fn p127() {
+pub fn p252() {
     let a: re::math::color::Color3<re::math::color::Rgb> = mk();
     let b: re::math::color::Color3<re::math::color::Rgb> = mk();
     let c: re::math::color::Color3<re::math::color::Rgb> = mk();
@@ -167,1097 +275,1288 @@ pub fn p127() {
     let _ = re::math::space::Affine::add(&c, &d);
 }
 
-pub fn p128() {
+pub fn p253() {
     let a: re::math::color::Color3<re::math::color::Rgb> = mk();
     let _ = a.to_hsl();
 }
 
-pub fn p129() {
+pub fn p254() {
     let a: re::math::color::Color3<re::math::color::Rgb> = mk();
     let _ = a.to_rgba();
 }
 
-pub fn p137() {
+pub fn p262() {
     let a: f32 = mk();
     let b: f32 = mk();
     let _ = a + b;
 }
 
-pub fn p138() {
+pub fn p263() {
     let a: f32 = mk();
     let b: f32 = mk();
     let _ = a % b;
 }
 
-pub fn p139() {
+pub fn p264() {
     let a: f32 = mk();
     let b: f32 = mk();
     let _ = a - b;
 }
 
-pub fn p143() {
+pub fn p268() {
     let a: re::math::mat::Mat3x3<re::math::mat::RealToReal<2, re::render::Model, re::render::Model>> = mk();
     let b: re::math::point::Point2<re::render::Model> = mk();
     let _r: re::math::point::Point2<re::render::Model> = a.apply_pt(&b);
 }
 
-pub fn p147() {
+pub fn p272() {
     let a: re::math::mat::Mat3x3<re::math::mat::RealToReal<2, re::render::Model, re::render::Model>> = mk();
     let b: re::math::vec::Vec2<re::render::Model> = mk();
     let _r: re::math::vec::Vec2<re::render::Model> = a.apply(&b);
 }
 
-pub fn p149() {
+pub fn p274() {
     let a: re::math::mat::Mat3x3<re::math::mat::RealToReal<2, re::render::Model, re::render::Model>> = mk();
     let b: re::math::vec::Vec2<re::render::Model> = mk();
     let _ = a.apply(&b);
 }
 
-pub fn p156() {
+pub fn p281() {
     let a: re::math::mat::Mat3x3<re::math::mat::RealToReal<2, re::render::Model, re::render::World>> = mk();
     let b: re::math::point::Point2<re::render::Model> = mk();
     let _r: re::math::point::Point2<re::render::World> = a.apply_pt(&b);
 }
 
-pub fn p160() {
+pub fn p285() {
     let a: re::math::mat::Mat3x3<re::math::mat::RealToReal<2, re::render::Model, re::render::World>> = mk();
     let b: re::math::vec::Vec2<re::render::Model> = mk();
     let _r: re::math::vec::Vec2<re::render::World> = a.apply(&b);
 }
 
-pub fn p161() {
+pub fn p286() {
     let a: re::math::mat::Mat3x3<re::math::mat::RealToReal<2, re::render::Model, re::render::World>> = mk();
     let b: re::math::vec::Vec2<re::render::Model> = mk();
     let _ = a.apply(&b);
 }
 
-pub fn p169() {
+pub fn p294() {
     let a: re::math::mat::Mat3x3<re::math::mat::RealToReal<2, re::render::World, re::render::Model>> = mk();
     let b: re::math::point::Point2<re::render::World> = mk();
     let _r: re::math::point::Point2<re::render::Model> = a.apply_pt(&b);
 }
 
-pub fn p174() {
+pub fn p299() {
     let a: re::math::mat::Mat3x3<re::math::mat::RealToReal<2, re::render::World, re::render::Model>> = mk();
     let b: re::math::vec::Vec2<re::render::World> = mk();
     let _r: re::math::vec::Vec2<re::render::Model> = a.apply(&b);
 }
 
-pub fn p176() {
+pub fn p301() {
     let a: re::math::mat::Mat3x3<re::math::mat::RealToReal<2, re::render::World, re::render::Model>> = mk();
     let b: re::math::vec::Vec2<re::render::World> = mk();
     let _ = a.apply(&b);
 }
 
-pub fn p182() {
+pub fn p307() {
     let a: re::math::mat::Mat3x3<re::math::mat::RealToReal<2, re::render::World, re::render::World>> = mk();
     let b: re::math::point::Point2<re::render::World> = mk();
     let _r: re::math::point::Point2<re::render::World> = a.apply_pt(&b);
 }
 
-pub fn p187() {
+pub fn p312() {
     let a: re::math::mat::Mat3x3<re::math::mat::RealToReal<2, re::render::World, re::render::World>> = mk();
     let b: re::math::vec::Vec2<re::render::World> = mk();
     let _r: re::math::vec::Vec2<re::render::World> = a.apply(&b);
 }
 
-pub fn p188() {
+pub fn p313() {
     let a: re::math::mat::Mat3x3<re::math::mat::RealToReal<2, re::render::World, re::render::World>> = mk();
     let b: re::math::vec::Vec2<re::render::World> = mk();
     let _ = a.apply(&b);
 }
 
-pub fn p191() {
+pub fn p316() {
+    let a: re::math::mat::Mat4x4<re::math::mat::RealToReal<3, re::render::Model, re::render::Model>> = mk();
+    let b: re::math::mat::Mat4x4<re::render::ModelToProj> = mk();
+    let _ = a.then(&b);
+}
+
+pub fn p317() {
+    let a: re::math::mat::Mat4x4<re::math::mat::RealToReal<3, re::render::Model, re::render::Model>> = mk();
+    let b: re::math::mat::Mat4x4<re::render::ModelToView> = mk();
+    let _ = a.then(&b);
+}
+
+pub fn p318() {
+    let a: re::math::mat::Mat4x4<re::math::mat::RealToReal<3, re::render::Model, re::render::Model>> = mk();
+    let b: re::math::mat::Mat4x4<re::render::ModelToWorld> = mk();
+    let _ = a.then(&b);
+}
+
+pub fn p321() {
     let a: re::math::mat::Mat4x4<re::math::mat::RealToReal<3, re::render::Model, re::render::Model>> = mk();
     let b: re::math::mat::Mat4x4<re::math::mat::RealToReal<3, re::render::Model, re::render::Model>> = mk();
     let _r: re::math::mat::Mat4x4<re::math::mat::RealToReal<3, re::render::Model, re::render::Model>> = a.compose(&b);
 }
 
-pub fn p195() {
+pub fn p325() {
     let a: re::math::mat::Mat4x4<re::math::mat::RealToReal<3, re::render::Model, re::render::Model>> = mk();
     let b: re::math::mat::Mat4x4<re::math::mat::RealToReal<3, re::render::Model, re::render::Model>> = mk();
     let _ = a.compose(&b);
 }
 
-pub fn p196() {
+pub fn p326() {
     let a: re::math::mat::Mat4x4<re::math::mat::RealToReal<3, re::render::Model, re::render::Model>> = mk();
     let b: re::math::mat::Mat4x4<re::math::mat::RealToReal<3, re::render::Model, re::render::Model>> = mk();
     let _ = a.then(&b);
 }
 
-pub fn p198() {
+pub fn p328() {
     let a: re::math::mat::Mat4x4<re::math::mat::RealToReal<3, re::render::Model, re::render::Model>> = mk();
     let b: re::math::mat::Mat4x4<re::math::mat::RealToReal<3, re::render::Model, ()>> = mk();
     let _ = a.then(&b);
 }
 
-pub fn p204() {
+pub fn p334() {
     let a: re::math::mat::Mat4x4<re::math::mat::RealToReal<3, re::render::Model, re::render::Model>> = mk();
     let b: re::math::mat::Mat4x4<re::math::mat::RealToReal<3, re::render::Model, re::render::World>> = mk();
     let _ = a.then(&b);
 }
 
-pub fn p206() {
+pub fn p336() {
     let a: re::math::mat::Mat4x4<re::math::mat::RealToReal<3, re::render::Model, re::render::Model>> = mk();
     let b: re::math::mat::Mat4x4<re::math::mat::RealToReal<3, (), re::render::Model>> = mk();
     let _ = a.compose(&b);
 }
 
-pub fn p213() {
+pub fn p343() {
     let a: re::math::mat::Mat4x4<re::math::mat::RealToReal<3, re::render::Model, re::render::Model>> = mk();
     let b: re::math::mat::Mat4x4<re::math::mat::RealToReal<3, re::render::World, re::render::Model>> = mk();
     let _r: re::math::mat::Mat4x4<re::math::mat::RealToReal<3, re::render::World, re::render::Model>> = a.compose(&b);
 }
 
-pub fn p216() {
+pub fn p346() {
     let a: re::math::mat::Mat4x4<re::math::mat::RealToReal<3, re::render::Model, re::render::Model>> = mk();
     let b: re::math::mat::Mat4x4<re::math::mat::RealToReal<3, re::render::World, re::render::Model>> = mk();
     let _ = a.compose(&b);
 }
 
-pub fn p226() {
+pub fn p356() {
     let a: re::math::mat::Mat4x4<re::math::mat::RealToReal<3, re::render::Model, re::render::Model>> = mk();
     let b: re::math::mat::Mat4x4<re::math::mat::RealToProj<re::render::Model>> = mk();
     let _ = a.then(&b);
 }
 
-pub fn p234() {
+pub fn p364() {
     let a: re::math::mat::Mat4x4<re::math::mat::RealToReal<3, re::render::Model, re::render::Model>> = mk();
     let b: re::math::point::Point3<re::render::Model> = mk();
     let _r: re::math::point::Point3<re::render::Model> = a.apply_pt(&b);
 }
 
-pub fn p237() {
+pub fn p368() {
     let a: re::math::mat::Mat4x4<re::math::mat::RealToReal<3, re::render::Model, re::render::Model>> = mk();
     let b: re::math::point::Point3<re::render::Model> = mk();
     let _ = a.apply_pt(&b);
 }
 
-pub fn p249() {
+pub fn p383() {
     let a: re::math::mat::Mat4x4<re::math::mat::RealToReal<3, re::render::Model, re::render::Model>> = mk();
     let b: re::math::vec::Vec3<re::render::Model> = mk();
     let _r: re::math::vec::Vec3<re::render::Model> = a.apply(&b);
 }
 
-pub fn p252() {
+pub fn p386() {
     let a: re::math::mat::Mat4x4<re::math::mat::RealToReal<3, re::render::Model, re::render::Model>> = mk();
     let b: re::math::vec::Vec3<re::render::Model> = mk();
     let _ = a.apply(&b);
 }
 
-pub fn p261() {
+pub fn p396() {
+    let a: re::math::mat::Mat4x4<re::math::mat::RealToReal<3, re::render::Model, re::render::Model>> = mk();
+    let _ = re::render::cam::Camera::new((8, 8)).mode(a.to());
+}
+
+pub fn p397() {
     let a: re::math::mat::Mat4x4<re::math::mat::RealToReal<3, re::render::Model, re::render::Model>> = mk();
     let _ = a.determinant();
 }
 
-pub fn p262() {
+pub fn p398() {
     let a: re::math::mat::Mat4x4<re::math::mat::RealToReal<3, re::render::Model, re::render::Model>> = mk();
     let _ = a.inverse();
 }
 
-pub fn p263() {
+pub fn p399() {
     let a: re::math::mat::Mat4x4<re::math::mat::RealToReal<3, re::render::Model, re::render::Model>> = mk();
     let _ = a.transpose();
 }
 
-pub fn p265() {
+pub fn p401() {
     let a: re::math::mat::Mat4x4<re::math::mat::RealToReal<3, re::render::Model, ()>> = mk();
     let b: re::math::mat::Mat4x4<re::math::mat::RealToReal<3, re::render::Model, re::render::Model>> = mk();
     let _ = a.compose(&b);
 }
 
-pub fn p270() {
+pub fn p406() {
     let a: re::math::mat::Mat4x4<re::math::mat::RealToReal<3, re::render::Model, ()>> = mk();
     let b: re::math::mat::Mat4x4<re::math::mat::RealToReal<3, (), re::render::Model>> = mk();
     let _ = a.compose(&b);
 }
 
-pub fn p271() {
+pub fn p407() {
     let a: re::math::mat::Mat4x4<re::math::mat::RealToReal<3, re::render::Model, ()>> = mk();
     let b: re::math::mat::Mat4x4<re::math::mat::RealToReal<3, (), re::render::Model>> = mk();
     let _ = a.then(&b);
 }
 
-pub fn p273() {
+pub fn p409() {
     let a: re::math::mat::Mat4x4<re::math::mat::RealToReal<3, re::render::Model, ()>> = mk();
     let b: re::math::mat::Mat4x4<re::math::mat::RealToReal<3, (), ()>> = mk();
     let _ = a.then(&b);
 }
 
-pub fn p275() {
+pub fn p411() {
     let a: re::math::mat::Mat4x4<re::math::mat::RealToReal<3, re::render::Model, ()>> = mk();
     let b: re::math::mat::Mat4x4<re::math::mat::RealToReal<3, (), re::render::World>> = mk();
     let _ = a.then(&b);
 }
 
-pub fn p277() {
+pub fn p413() {
     let a: re::math::mat::Mat4x4<re::math::mat::RealToReal<3, re::render::Model, ()>> = mk();
     let b: re::math::mat::Mat4x4<re::math::mat::RealToReal<3, re::render::World, re::render::Model>> = mk();
     let _ = a.compose(&b);
 }
 
-pub fn p285() {
+pub fn p421() {
     let a: re::math::mat::Mat4x4<re::math::mat::RealToReal<3, re::render::Model, ()>> = mk();
     let b: re::math::mat::Mat4x4<re::math::mat::RealToProj<()>> = mk();
     let _ = a.then(&b);
 }
 
-pub fn p292() {
+pub fn p428() {
     let a: re::math::mat::Mat4x4<re::math::mat::RealToReal<3, re::render::Model, ()>> = mk();
     let b: re::math::point::Point3<re::render::Model> = mk();
     let _r: re::math::point::Point3<()> = a.apply_pt(&b);
 }
 
-pub fn p294() {
+pub fn p430() {
     let a: re::math::mat::Mat4x4<re::math::mat::RealToReal<3, re::render::Model, ()>> = mk();
     let b: re::math::point::Point3<re::render::Model> = mk();
     let _ = a.apply_pt(&b);
 }
 
-pub fn p307() {
+pub fn p443() {
     let a: re::math::mat::Mat4x4<re::math::mat::RealToReal<3, re::render::Model, ()>> = mk();
     let b: re::math::vec::Vec3<re::render::Model> = mk();
     let _r: re::math::vec::Vec3<()> = a.apply(&b);
 }
 
-pub fn p309() {
+pub fn p445() {
     let a: re::math::mat::Mat4x4<re::math::mat::RealToReal<3, re::render::Model, ()>> = mk();
     let b: re::math::vec::Vec3<re::render::Model> = mk();
     let _ = a.apply(&b);
 }
 
-pub fn p318() {
+pub fn p454() {
     let a: re::math::mat::Mat4x4<re::math::mat::RealToReal<3, re::render::Model, ()>> = mk();
     let _ = a.determinant();
 }
 
-pub fn p319() {
+pub fn p455() {
     let a: re::math::mat::Mat4x4<re::math::mat::RealToReal<3, re::render::Model, ()>> = mk();
     let _ = a.inverse();
 }
 
-pub fn p320() {
+pub fn p456() {
     let a: re::math::mat::Mat4x4<re::math::mat::RealToReal<3, re::render::Model, ()>> = mk();
     let _ = a.transpose();
 }
 
-pub fn p322() {
+pub fn p460() {
+    let a: re::math::mat::Mat4x4<re::math::mat::RealToReal<3, re::render::Model, re::render::View>> = mk();
+    let b: re::math::mat::Mat4x4<re::render::ViewToProj> = mk();
+    let _ = a.then(&b);
+}
+
+pub fn p463() {
+    let a: re::math::mat::Mat4x4<re::math::mat::RealToReal<3, re::render::Model, re::render::View>> = mk();
+    let b: re::math::point::Point3<re::render::Model> = mk();
+    let _ = a.apply_pt(&b);
+}
+
+pub fn p469() {
+    let a: re::math::mat::Mat4x4<re::math::mat::RealToReal<3, re::render::Model, re::render::View>> = mk();
+    let _ = re::render::cam::Camera::new((8, 8)).mode(a.to());
+}
+
+pub fn p474() {
+    let a: re::math::mat::Mat4x4<re::math::mat::RealToReal<3, re::render::Model, re::render::World>> = mk();
+    let b: re::math::mat::Mat4x4<re::render::WorldToView> = mk();
+    let _ = a.then(&b);
+}
+
+pub fn p476() {
     let a: re::math::mat::Mat4x4<re::math::mat::RealToReal<3, re::render::Model, re::render::World>> = mk();
     let b: re::math::mat::Mat4x4<re::math::mat::RealToReal<3, re::render::Model, re::render::Model>> = mk();
     let _r: re::math::mat::Mat4x4<re::math::mat::RealToReal<3, re::render::Model, re::render::World>> = a.compose(&b);
 }
 
-pub fn p326() {
+pub fn p480() {
     let a: re::math::mat::Mat4x4<re::math::mat::RealToReal<3, re::render::Model, re::render::World>> = mk();
     let b: re::math::mat::Mat4x4<re::math::mat::RealToReal<3, re::render::Model, re::render::Model>> = mk();
     let _ = a.compose(&b);
 }
 
-pub fn p336() {
+pub fn p490() {
     let a: re::math::mat::Mat4x4<re::math::mat::RealToReal<3, re::render::Model, re::render::World>> = mk();
     let b: re::math::mat::Mat4x4<re::math::mat::RealToReal<3, (), re::render::Model>> = mk();
     let _ = a.compose(&b);
 }
 
-pub fn p344() {
+pub fn p498() {
     let a: re::math::mat::Mat4x4<re::math::mat::RealToReal<3, re::render::Model, re::render::World>> = mk();
     let b: re::math::mat::Mat4x4<re::math::mat::RealToReal<3, re::render::World, re::render::Model>> = mk();
     let _r: re::math::mat::Mat4x4<re::math::mat::RealToReal<3, re::render::World, re::render::World>> = a.compose(&b);
 }
 
-pub fn p345() {
+pub fn p499() {
     let a: re::math::mat::Mat4x4<re::math::mat::RealToReal<3, re::render::Model, re::render::World>> = mk();
     let b: re::math::mat::Mat4x4<re::math::mat::RealToReal<3, re::render::World, re::render::Model>> = mk();
     let _ = a.compose(&b);
-}
-
-pub fn p346() {
-    let a: re::math::mat::Mat4x4<re::math::mat::RealToReal<3, re::render::Model, re::render::World>> = mk();
-    let b: re::math::mat::Mat4x4<re::math::mat::RealToReal<3, re::render::World, re::render::Model>> = mk();
-    let _ = a.then(&b);
-}
-
-pub fn p348() {
-    let a: re::math::mat::Mat4x4<re::math::mat::RealToReal<3, re::render::Model, re::render::World>> = mk();
-    let b: re::math::mat::Mat4x4<re::math::mat::RealToReal<3, re::render::World, ()>> = mk();
-    let _ = a.then(&b);
-}
-
-pub fn p354() {
-    let a: re::math::mat::Mat4x4<re::math::mat::RealToReal<3, re::render::Model, re::render::World>> = mk();
-    let b: re::math::mat::Mat4x4<re::math::mat::RealToReal<3, re::render::World, re::render::World>> = mk();
-    let _ = a.then(&b);
-}
-
-pub fn p360() {
-    let a: re::math::mat::Mat4x4<re::math::mat::RealToReal<3, re::render::Model, re::render::World>> = mk();
-    let b: re::math::mat::Mat4x4<re::math::mat::RealToProj<re::render::World>> = mk();
-    let _ = a.then(&b);
-}
-
-pub fn p366() {
-    let a: re::math::mat::Mat4x4<re::math::mat::RealToReal<3, re::render::Model, re::render::World>> = mk();
-    let b: re::math::point::Point3<re::render::Model> = mk();
-    let _r: re::math::point::Point3<re::render::World> = a.apply_pt(&b);
-}
-
-pub fn p367() {
-    let a: re::math::mat::Mat4x4<re::math::mat::RealToReal<3, re::render::Model, re::render::World>> = mk();
-    let b: re::math::point::Point3<re::render::Model> = mk();
-    let _ = a.apply_pt(&b);
-}
-
-pub fn p381() {
-    let a: re::math::mat::Mat4x4<re::math::mat::RealToReal<3, re::render::Model, re::render::World>> = mk();
-    let b: re::math::vec::Vec3<re::render::Model> = mk();
-    let _r: re::math::vec::Vec3<re::render::World> = a.apply(&b);
-}
-
-pub fn p382() {
-    let a: re::math::mat::Mat4x4<re::math::mat::RealToReal<3, re::render::Model, re::render::World>> = mk();
-    let b: re::math::vec::Vec3<re::render::Model> = mk();
-    let _ = a.apply(&b);
-}
-
-pub fn p391() {
-    let a: re::math::mat::Mat4x4<re::math::mat::RealToReal<3, re::render::Model, re::render::World>> = mk();
-    let _ = a.determinant();
-}
-
-pub fn p392() {
-    let a: re::math::mat::Mat4x4<re::math::mat::RealToReal<3, re::render::Model, re::render::World>> = mk();
-    let _ = a.inverse();
-}
-
-pub fn p393() {
-    let a: re::math::mat::Mat4x4<re::math::mat::RealToReal<3, re::render::Model, re::render::World>> = mk();
-    let _ = a.transpose();
-}
-
-pub fn p395() {
-    let a: re::math::mat::Mat4x4<re::math::mat::RealToReal<3, (), re::render::Model>> = mk();
-    let b: re::math::mat::Mat4x4<re::math::mat::RealToReal<3, re::render::Model, re::render::Model>> = mk();
-    let _ = a.then(&b);
-}
-
-pub fn p396() {
-    let a: re::math::mat::Mat4x4<re::math::mat::RealToReal<3, (), re::render::Model>> = mk();
-    let b: re::math::mat::Mat4x4<re::math::mat::RealToReal<3, re::render::Model, ()>> = mk();
-    let _ = a.compose(&b);
-}
-
-pub fn p397() {
-    let a: re::math::mat::Mat4x4<re::math::mat::RealToReal<3, (), re::render::Model>> = mk();
-    let b: re::math::mat::Mat4x4<re::math::mat::RealToReal<3, re::render::Model, ()>> = mk();
-    let _ = a.then(&b);
-}
-
-pub fn p399() {
-    let a: re::math::mat::Mat4x4<re::math::mat::RealToReal<3, (), re::render::Model>> = mk();
-    let b: re::math::mat::Mat4x4<re::math::mat::RealToReal<3, re::render::Model, re::render::World>> = mk();
-    let _ = a.then(&b);
-}
-
-pub fn p403() {
-    let a: re::math::mat::Mat4x4<re::math::mat::RealToReal<3, (), re::render::Model>> = mk();
-    let b: re::math::mat::Mat4x4<re::math::mat::RealToReal<3, (), ()>> = mk();
-    let _ = a.compose(&b);
-}
-
-pub fn p409() {
-    let a: re::math::mat::Mat4x4<re::math::mat::RealToReal<3, (), re::render::Model>> = mk();
-    let b: re::math::mat::Mat4x4<re::math::mat::RealToReal<3, re::render::World, ()>> = mk();
-    let _ = a.compose(&b);
-}
-
-pub fn p413() {
-    let a: re::math::mat::Mat4x4<re::math::mat::RealToReal<3, (), re::render::Model>> = mk();
-    let b: re::math::mat::Mat4x4<re::math::mat::RealToProj<re::render::Model>> = mk();
-    let _ = a.then(&b);
-}
-
-pub fn p425() {
-    let a: re::math::mat::Mat4x4<re::math::mat::RealToReal<3, (), re::render::Model>> = mk();
-    let b: re::math::point::Point3<()> = mk();
-    let _r: re::math::point::Point3<re::render::Model> = a.apply_pt(&b);
-}
-
-pub fn p428() {
-    let a: re::math::mat::Mat4x4<re::math::mat::RealToReal<3, (), re::render::Model>> = mk();
-    let b: re::math::point::Point3<()> = mk();
-    let _ = a.apply_pt(&b);
-}
-
-pub fn p440() {
-    let a: re::math::mat::Mat4x4<re::math::mat::RealToReal<3, (), re::render::Model>> = mk();
-    let b: re::math::vec::Vec3<()> = mk();
-    let _r: re::math::vec::Vec3<re::render::Model> = a.apply(&b);
-}
-
-pub fn p443() {
-    let a: re::math::mat::Mat4x4<re::math::mat::RealToReal<3, (), re::render::Model>> = mk();
-    let b: re::math::vec::Vec3<()> = mk();
-    let _ = a.apply(&b);
-}
-
-pub fn p448() {
-    let a: re::math::mat::Mat4x4<re::math::mat::RealToReal<3, (), re::render::Model>> = mk();
-    let _ = a.determinant();
-}
-
-pub fn p449() {
-    let a: re::math::mat::Mat4x4<re::math::mat::RealToReal<3, (), re::render::Model>> = mk();
-    let _ = a.inverse();
-}
-
-pub fn p450() {
-    let a: re::math::mat::Mat4x4<re::math::mat::RealToReal<3, (), re::render::Model>> = mk();
-    let _ = a.transpose();
-}
-
-pub fn p454() {
-    let a: re::math::mat::Mat4x4<re::math::mat::RealToReal<3, (), ()>> = mk();
-    let b: re::math::mat::Mat4x4<re::math::mat::RealToReal<3, re::render::Model, ()>> = mk();
-    let _ = a.compose(&b);
-}
-
-pub fn p458() {
-    let a: re::math::mat::Mat4x4<re::math::mat::RealToReal<3, (), ()>> = mk();
-    let b: re::math::mat::Mat4x4<re::math::mat::RealToReal<3, (), re::render::Model>> = mk();
-    let _ = a.then(&b);
-}
-
-pub fn p459() {
-    let a: re::math::mat::Mat4x4<re::math::mat::RealToReal<3, (), ()>> = mk();
-    let b: re::math::mat::Mat4x4<re::math::mat::RealToReal<3, (), ()>> = mk();
-    let _ = a.compose(&b);
-}
-
-pub fn p460() {
-    let a: re::math::mat::Mat4x4<re::math::mat::RealToReal<3, (), ()>> = mk();
-    let b: re::math::mat::Mat4x4<re::math::mat::RealToReal<3, (), ()>> = mk();
-    let _ = a.then(&b);
-}
-
-pub fn p462() {
-    let a: re::math::mat::Mat4x4<re::math::mat::RealToReal<3, (), ()>> = mk();
-    let b: re::math::mat::Mat4x4<re::math::mat::RealToReal<3, (), re::render::World>> = mk();
-    let _ = a.then(&b);
-}
-
-pub fn p466() {
-    let a: re::math::mat::Mat4x4<re::math::mat::RealToReal<3, (), ()>> = mk();
-    let b: re::math::mat::Mat4x4<re::math::mat::RealToReal<3, re::render::World, ()>> = mk();
-    let _ = a.compose(&b);
-}
-
-pub fn p472() {
-    let a: re::math::mat::Mat4x4<re::math::mat::RealToReal<3, (), ()>> = mk();
-    let b: re::math::mat::Mat4x4<re::math::mat::RealToProj<()>> = mk();
-    let _ = a.then(&b);
-}
-
-pub fn p483() {
-    let a: re::math::mat::Mat4x4<re::math::mat::RealToReal<3, (), ()>> = mk();
-    let b: re::math::point::Point3<()> = mk();
-    let _r: re::math::point::Point3<()> = a.apply_pt(&b);
-}
-
-pub fn p485() {
-    let a: re::math::mat::Mat4x4<re::math::mat::RealToReal<3, (), ()>> = mk();
-    let b: re::math::point::Point3<()> = mk();
-    let _ = a.apply_pt(&b);
-}
-
-pub fn p498() {
-    let a: re::math::mat::Mat4x4<re::math::mat::RealToReal<3, (), ()>> = mk();
-    let b: re::math::vec::Vec3<()> = mk();
-    let _r: re::math::vec::Vec3<()> = a.apply(&b);
 }
 
 pub fn p500() {
+    let a: re::math::mat::Mat4x4<re::math::mat::RealToReal<3, re::render::Model, re::render::World>> = mk();
+    let b: re::math::mat::Mat4x4<re::math::mat::RealToReal<3, re::render::World, re::render::Model>> = mk();
+    let _ = a.then(&b);
+}
+
+pub fn p502() {
+    let a: re::math::mat::Mat4x4<re::math::mat::RealToReal<3, re::render::Model, re::render::World>> = mk();
+    let b: re::math::mat::Mat4x4<re::math::mat::RealToReal<3, re::render::World, ()>> = mk();
+    let _ = a.then(&b);
+}
+
+pub fn p508() {
+    let a: re::math::mat::Mat4x4<re::math::mat::RealToReal<3, re::render::Model, re::render::World>> = mk();
+    let b: re::math::mat::Mat4x4<re::math::mat::RealToReal<3, re::render::World, re::render::World>> = mk();
+    let _ = a.then(&b);
+}
+
+pub fn p514() {
+    let a: re::math::mat::Mat4x4<re::math::mat::RealToReal<3, re::render::Model, re::render::World>> = mk();
+    let b: re::math::mat::Mat4x4<re::math::mat::RealToProj<re::render::World>> = mk();
+    let _ = a.then(&b);
+}
+
+pub fn p520() {
+    let a: re::math::mat::Mat4x4<re::math::mat::RealToReal<3, re::render::Model, re::render::World>> = mk();
+    let b: re::math::point::Point3<re::render::Model> = mk();
+    let _r: re::math::point::Point3<re::render::World> = a.apply_pt(&b);
+}
+
+pub fn p522() {
+    let a: re::math::mat::Mat4x4<re::math::mat::RealToReal<3, re::render::Model, re::render::World>> = mk();
+    let b: re::math::point::Point3<re::render::Model> = mk();
+    let _ = a.apply_pt(&b);
+}
+
+pub fn p539() {
+    let a: re::math::mat::Mat4x4<re::math::mat::RealToReal<3, re::render::Model, re::render::World>> = mk();
+    let b: re::math::vec::Vec3<re::render::Model> = mk();
+    let _r: re::math::vec::Vec3<re::render::World> = a.apply(&b);
+}
+
+pub fn p540() {
+    let a: re::math::mat::Mat4x4<re::math::mat::RealToReal<3, re::render::Model, re::render::World>> = mk();
+    let b: re::math::vec::Vec3<re::render::Model> = mk();
+    let _ = a.apply(&b);
+}
+
+pub fn p550() {
+    let a: re::math::mat::Mat4x4<re::math::mat::RealToReal<3, re::render::Model, re::render::World>> = mk();
+    let _ = re::render::cam::Camera::new((8, 8)).mode(a.to());
+}
+
+pub fn p551() {
+    let a: re::math::mat::Mat4x4<re::math::mat::RealToReal<3, re::render::Model, re::render::World>> = mk();
+    let _ = a.determinant();
+}
+
+pub fn p552() {
+    let a: re::math::mat::Mat4x4<re::math::mat::RealToReal<3, re::render::Model, re::render::World>> = mk();
+    let _ = a.inverse();
+}
+
+pub fn p553() {
+    let a: re::math::mat::Mat4x4<re::math::mat::RealToReal<3, re::render::Model, re::render::World>> = mk();
+    let _ = a.transpose();
+}
+
+pub fn p555() {
+    let a: re::math::mat::Mat4x4<re::math::mat::RealToReal<3, (), re::render::Model>> = mk();
+    let b: re::math::mat::Mat4x4<re::math::mat::RealToReal<3, re::render::Model, re::render::Model>> = mk();
+    let _ = a.then(&b);
+}
+
+pub fn p556() {
+    let a: re::math::mat::Mat4x4<re::math::mat::RealToReal<3, (), re::render::Model>> = mk();
+    let b: re::math::mat::Mat4x4<re::math::mat::RealToReal<3, re::render::Model, ()>> = mk();
+    let _ = a.compose(&b);
+}
+
+pub fn p557() {
+    let a: re::math::mat::Mat4x4<re::math::mat::RealToReal<3, (), re::render::Model>> = mk();
+    let b: re::math::mat::Mat4x4<re::math::mat::RealToReal<3, re::render::Model, ()>> = mk();
+    let _ = a.then(&b);
+}
+
+pub fn p559() {
+    let a: re::math::mat::Mat4x4<re::math::mat::RealToReal<3, (), re::render::Model>> = mk();
+    let b: re::math::mat::Mat4x4<re::math::mat::RealToReal<3, re::render::Model, re::render::World>> = mk();
+    let _ = a.then(&b);
+}
+
+pub fn p563() {
+    let a: re::math::mat::Mat4x4<re::math::mat::RealToReal<3, (), re::render::Model>> = mk();
+    let b: re::math::mat::Mat4x4<re::math::mat::RealToReal<3, (), ()>> = mk();
+    let _ = a.compose(&b);
+}
+
+pub fn p569() {
+    let a: re::math::mat::Mat4x4<re::math::mat::RealToReal<3, (), re::render::Model>> = mk();
+    let b: re::math::mat::Mat4x4<re::math::mat::RealToReal<3, re::render::World, ()>> = mk();
+    let _ = a.compose(&b);
+}
+
+pub fn p573() {
+    let a: re::math::mat::Mat4x4<re::math::mat::RealToReal<3, (), re::render::Model>> = mk();
+    let b: re::math::mat::Mat4x4<re::math::mat::RealToProj<re::render::Model>> = mk();
+    let _ = a.then(&b);
+}
+
+pub fn p585() {
+    let a: re::math::mat::Mat4x4<re::math::mat::RealToReal<3, (), re::render::Model>> = mk();
+    let b: re::math::point::Point3<()> = mk();
+    let _r: re::math::point::Point3<re::render::Model> = a.apply_pt(&b);
+}
+
+pub fn p588() {
+    let a: re::math::mat::Mat4x4<re::math::mat::RealToReal<3, (), re::render::Model>> = mk();
+    let b: re::math::point::Point3<()> = mk();
+    let _ = a.apply_pt(&b);
+}
+
+pub fn p600() {
+    let a: re::math::mat::Mat4x4<re::math::mat::RealToReal<3, (), re::render::Model>> = mk();
+    let b: re::math::vec::Vec3<()> = mk();
+    let _r: re::math::vec::Vec3<re::render::Model> = a.apply(&b);
+}
+
+pub fn p603() {
+    let a: re::math::mat::Mat4x4<re::math::mat::RealToReal<3, (), re::render::Model>> = mk();
+    let b: re::math::vec::Vec3<()> = mk();
+    let _ = a.apply(&b);
+}
+
+pub fn p608() {
+    let a: re::math::mat::Mat4x4<re::math::mat::RealToReal<3, (), re::render::Model>> = mk();
+    let _ = a.determinant();
+}
+
+pub fn p609() {
+    let a: re::math::mat::Mat4x4<re::math::mat::RealToReal<3, (), re::render::Model>> = mk();
+    let _ = a.inverse();
+}
+
+pub fn p610() {
+    let a: re::math::mat::Mat4x4<re::math::mat::RealToReal<3, (), re::render::Model>> = mk();
+    let _ = a.transpose();
+}
+
+pub fn p614() {
+    let a: re::math::mat::Mat4x4<re::math::mat::RealToReal<3, (), ()>> = mk();
+    let b: re::math::mat::Mat4x4<re::math::mat::RealToReal<3, re::render::Model, ()>> = mk();
+    let _ = a.compose(&b);
+}
+
+pub fn p618() {
+    let a: re::math::mat::Mat4x4<re::math::mat::RealToReal<3, (), ()>> = mk();
+    let b: re::math::mat::Mat4x4<re::math::mat::RealToReal<3, (), re::render::Model>> = mk();
+    let _ = a.then(&b);
+}
+
+pub fn p619() {
+    let a: re::math::mat::Mat4x4<re::math::mat::RealToReal<3, (), ()>> = mk();
+    let b: re::math::mat::Mat4x4<re::math::mat::RealToReal<3, (), ()>> = mk();
+    let _ = a.compose(&b);
+}
+
+pub fn p620() {
+    let a: re::math::mat::Mat4x4<re::math::mat::RealToReal<3, (), ()>> = mk();
+    let b: re::math::mat::Mat4x4<re::math::mat::RealToReal<3, (), ()>> = mk();
+    let _ = a.then(&b);
+}
+
+pub fn p622() {
+    let a: re::math::mat::Mat4x4<re::math::mat::RealToReal<3, (), ()>> = mk();
+    let b: re::math::mat::Mat4x4<re::math::mat::RealToReal<3, (), re::render::World>> = mk();
+    let _ = a.then(&b);
+}
+
+pub fn p626() {
+    let a: re::math::mat::Mat4x4<re::math::mat::RealToReal<3, (), ()>> = mk();
+    let b: re::math::mat::Mat4x4<re::math::mat::RealToReal<3, re::render::World, ()>> = mk();
+    let _ = a.compose(&b);
+}
+
+pub fn p632() {
+    let a: re::math::mat::Mat4x4<re::math::mat::RealToReal<3, (), ()>> = mk();
+    let b: re::math::mat::Mat4x4<re::math::mat::RealToProj<()>> = mk();
+    let _ = a.then(&b);
+}
+
+pub fn p643() {
+    let a: re::math::mat::Mat4x4<re::math::mat::RealToReal<3, (), ()>> = mk();
+    let b: re::math::point::Point3<()> = mk();
+    let _r: re::math::point::Point3<()> = a.apply_pt(&b);
+}
+
+pub fn p645() {
+    let a: re::math::mat::Mat4x4<re::math::mat::RealToReal<3, (), ()>> = mk();
+    let b: re::math::point::Point3<()> = mk();
+    let _ = a.apply_pt(&b);
+}
+
+pub fn p658() {
+    let a: re::math::mat::Mat4x4<re::math::mat::RealToReal<3, (), ()>> = mk();
+    let b: re::math::vec::Vec3<()> = mk();
+    let _r: re::math::vec::Vec3<()> = a.apply(&b);
+}
+
+pub fn p660() {
     let a: re::math::mat::Mat4x4<re::math::mat::RealToReal<3, (), ()>> = mk();
     let b: re::math::vec::Vec3<()> = mk();
     let _ = a.apply(&b);
 }
 
-pub fn p505() {
+pub fn p665() {
     let a: re::math::mat::Mat4x4<re::math::mat::RealToReal<3, (), ()>> = mk();
     let _ = a.determinant();
 }
 
-pub fn p506() {
+pub fn p666() {
     let a: re::math::mat::Mat4x4<re::math::mat::RealToReal<3, (), ()>> = mk();
     let _ = a.inverse();
 }
 
-pub fn p507() {
+pub fn p667() {
     let a: re::math::mat::Mat4x4<re::math::mat::RealToReal<3, (), ()>> = mk();
     let _ = a.transpose();
 }
 
-pub fn p511() {
+pub fn p671() {
     let a: re::math::mat::Mat4x4<re::math::mat::RealToReal<3, (), re::render::World>> = mk();
     let b: re::math::mat::Mat4x4<re::math::mat::RealToReal<3, re::render::Model, ()>> = mk();
     let _ = a.compose(&b);
 }
 
-pub fn p517() {
+pub fn p677() {
     let a: re::math::mat::Mat4x4<re::math::mat::RealToReal<3, (), re::render::World>> = mk();
     let b: re::math::mat::Mat4x4<re::math::mat::RealToReal<3, (), ()>> = mk();
     let _ = a.compose(&b);
 }
 
-pub fn p521() {
+pub fn p681() {
     let a: re::math::mat::Mat4x4<re::math::mat::RealToReal<3, (), re::render::World>> = mk();
     let b: re::math::mat::Mat4x4<re::math::mat::RealToReal<3, re::render::World, re::render::Model>> = mk();
     let _ = a.then(&b);
 }
 
-pub fn p522() {
+pub fn p682() {
     let a: re::math::mat::Mat4x4<re::math::mat::RealToReal<3, (), re::render::World>> = mk();
     let b: re::math::mat::Mat4x4<re::math::mat::RealToReal<3, re::render::World, ()>> = mk();
     let _ = a.compose(&b);
 }
 
-pub fn p523() {
+pub fn p683() {
     let a: re::math::mat::Mat4x4<re::math::mat::RealToReal<3, (), re::render::World>> = mk();
     let b: re::math::mat::Mat4x4<re::math::mat::RealToReal<3, re::render::World, ()>> = mk();
     let _ = a.then(&b);
 }
 
-pub fn p525() {
+pub fn p685() {
     let a: re::math::mat::Mat4x4<re::math::mat::RealToReal<3, (), re::render::World>> = mk();
     let b: re::math::mat::Mat4x4<re::math::mat::RealToReal<3, re::render::World, re::render::World>> = mk();
     let _ = a.then(&b);
 }
 
-pub fn p531() {
+pub fn p691() {
     let a: re::math::mat::Mat4x4<re::math::mat::RealToReal<3, (), re::render::World>> = mk();
     let b: re::math::mat::Mat4x4<re::math::mat::RealToProj<re::render::World>> = mk();
     let _ = a.then(&b);
 }
 
-pub fn p541() {
+pub fn p701() {
     let a: re::math::mat::Mat4x4<re::math::mat::RealToReal<3, (), re::render::World>> = mk();
     let b: re::math::point::Point3<()> = mk();
     let _r: re::math::point::Point3<re::render::World> = a.apply_pt(&b);
 }
 
-pub fn p542() {
+pub fn p702() {
     let a: re::math::mat::Mat4x4<re::math::mat::RealToReal<3, (), re::render::World>> = mk();
     let b: re::math::point::Point3<()> = mk();
     let _ = a.apply_pt(&b);
 }
 
-pub fn p556() {
+pub fn p716() {
     let a: re::math::mat::Mat4x4<re::math::mat::RealToReal<3, (), re::render::World>> = mk();
     let b: re::math::vec::Vec3<()> = mk();
     let _r: re::math::vec::Vec3<re::render::World> = a.apply(&b);
 }
 
-pub fn p557() {
+pub fn p717() {
     let a: re::math::mat::Mat4x4<re::math::mat::RealToReal<3, (), re::render::World>> = mk();
     let b: re::math::vec::Vec3<()> = mk();
     let _ = a.apply(&b);
 }
 
-pub fn p562() {
-    let a: re::math::mat::Mat4x4<re::math::mat::RealToReal<3, (), re::render::World>> = mk();
-    let _ = a.determinant();
-}
-
-pub fn p563() {
-    let a: re::math::mat::Mat4x4<re::math::mat::RealToReal<3, (), re::render::World>> = mk();
-    let _ = a.inverse();
-}
-
-pub fn p564() {
-    let a: re::math::mat::Mat4x4<re::math::mat::RealToReal<3, (), re::render::World>> = mk();
-    let _ = a.transpose();
-}
-
-pub fn p565() {
-    let a: re::math::mat::Mat4x4<re::math::mat::RealToReal<3, crate::UserTag, crate::UserTag>> = mk();
-    let b: re::math::mat::Mat4x4<re::math::mat::RealToReal<3, crate::UserTag, crate::UserTag>> = mk();
-    let _ = a.compose(&b);
-}
-
-pub fn p566() {
-    let a: re::math::mat::Mat4x4<re::math::mat::RealToReal<3, crate::UserTag, crate::UserTag>> = mk();
-    let b: re::math::mat::Mat4x4<re::math::mat::RealToReal<3, crate::UserTag, crate::UserTag>> = mk();
-    let _ = a.then(&b);
-}
-
-pub fn p568() {
-    let a: re::math::mat::Mat4x4<re::math::mat::RealToReal<3, crate::UserTag, crate::UserTag>> = mk();
-    let b: re::math::mat::Mat4x4<re::math::mat::RealToReal<3, crate::UserTag, re::render::World>> = mk();
-    let _ = a.then(&b);
-}
-
-pub fn p570() {
-    let a: re::math::mat::Mat4x4<re::math::mat::RealToReal<3, crate::UserTag, crate::UserTag>> = mk();
-    let b: re::math::mat::Mat4x4<re::math::mat::RealToReal<3, re::render::World, crate::UserTag>> = mk();
-    let _ = a.compose(&b);
-}
-
-pub fn p571() {
-    let a: re::math::mat::Mat4x4<re::math::mat::RealToReal<3, crate::UserTag, crate::UserTag>> = mk();
-    let b: re::math::point::Point3<crate::UserTag> = mk();
-    let _ = a.apply_pt(&b);
-}
-
-pub fn p573() {
-    let a: re::math::mat::Mat4x4<re::math::mat::RealToReal<3, crate::UserTag, crate::UserTag>> = mk();
-    let b: re::math::vec::Vec3<crate::UserTag> = mk();
-    let _ = a.apply(&b);
-}
-
-pub fn p575() {
-    let a: re::math::mat::Mat4x4<re::math::mat::RealToReal<3, crate::UserTag, crate::UserTag>> = mk();
-    let _ = a.determinant();
-}
-
-pub fn p576() {
-    let a: re::math::mat::Mat4x4<re::math::mat::RealToReal<3, crate::UserTag, crate::UserTag>> = mk();
-    let _ = a.inverse();
-}
-
-pub fn p577() {
-    let a: re::math::mat::Mat4x4<re::math::mat::RealToReal<3, crate::UserTag, crate::UserTag>> = mk();
-    let _ = a.transpose();
-}
-
-pub fn p579() {
-    let a: re::math::mat::Mat4x4<re::math::mat::RealToReal<3, crate::UserTag, re::render::World>> = mk();
-    let b: re::math::mat::Mat4x4<re::math::mat::RealToReal<3, crate::UserTag, crate::UserTag>> = mk();
-    let _ = a.compose(&b);
-}
-
-pub fn p582() {
-    let a: re::math::mat::Mat4x4<re::math::mat::RealToReal<3, crate::UserTag, re::render::World>> = mk();
-    let b: re::math::mat::Mat4x4<re::math::mat::RealToReal<3, re::render::World, crate::UserTag>> = mk();
-    let _ = a.compose(&b);
-}
-
-pub fn p583() {
-    let a: re::math::mat::Mat4x4<re::math::mat::RealToReal<3, crate::UserTag, re::render::World>> = mk();
-    let b: re::math::mat::Mat4x4<re::math::mat::RealToReal<3, re::render::World, crate::UserTag>> = mk();
-    let _ = a.then(&b);
-}
-
-pub fn p584() {
-    let a: re::math::mat::Mat4x4<re::math::mat::RealToReal<3, crate::UserTag, re::render::World>> = mk();
-    let b: re::math::point::Point3<crate::UserTag> = mk();
-    let _ = a.apply_pt(&b);
-}
-
-pub fn p586() {
-    let a: re::math::mat::Mat4x4<re::math::mat::RealToReal<3, crate::UserTag, re::render::World>> = mk();
-    let b: re::math::vec::Vec3<crate::UserTag> = mk();
-    let _ = a.apply(&b);
-}
-
-pub fn p588() {
-    let a: re::math::mat::Mat4x4<re::math::mat::RealToReal<3, crate::UserTag, re::render::World>> = mk();
-    let _ = a.determinant();
-}
-
-pub fn p589() {
-    let a: re::math::mat::Mat4x4<re::math::mat::RealToReal<3, crate::UserTag, re::render::World>> = mk();
-    let _ = a.inverse();
-}
-
-pub fn p590() {
-    let a: re::math::mat::Mat4x4<re::math::mat::RealToReal<3, crate::UserTag, re::render::World>> = mk();
-    let _ = a.transpose();
-}
-
-pub fn p596() {
-    let a: re::math::mat::Mat4x4<re::math::mat::RealToReal<3, re::render::World, re::render::Model>> = mk();
-    let b: re::math::mat::Mat4x4<re::math::mat::RealToReal<3, re::render::Model, re::render::Model>> = mk();
-    let _ = a.then(&b);
-}
-
-pub fn p598() {
-    let a: re::math::mat::Mat4x4<re::math::mat::RealToReal<3, re::render::World, re::render::Model>> = mk();
-    let b: re::math::mat::Mat4x4<re::math::mat::RealToReal<3, re::render::Model, ()>> = mk();
-    let _ = a.then(&b);
-}
-
-pub fn p599() {
-    let a: re::math::mat::Mat4x4<re::math::mat::RealToReal<3, re::render::World, re::render::Model>> = mk();
-    let b: re::math::mat::Mat4x4<re::math::mat::RealToReal<3, re::render::Model, re::render::World>> = mk();
-    let _r: re::math::mat::Mat4x4<re::math::mat::RealToReal<3, re::render::Model, re::render::Model>> = a.compose(&b);
-}
-
-pub fn p603() {
-    let a: re::math::mat::Mat4x4<re::math::mat::RealToReal<3, re::render::World, re::render::Model>> = mk();
-    let b: re::math::mat::Mat4x4<re::math::mat::RealToReal<3, re::render::Model, re::render::World>> = mk();
-    let _ = a.compose(&b);
-}
-
-pub fn p604() {
-    let a: re::math::mat::Mat4x4<re::math::mat::RealToReal<3, re::render::World, re::render::Model>> = mk();
-    let b: re::math::mat::Mat4x4<re::math::mat::RealToReal<3, re::render::Model, re::render::World>> = mk();
-    let _ = a.then(&b);
-}
-
-pub fn p610() {
-    let a: re::math::mat::Mat4x4<re::math::mat::RealToReal<3, re::render::World, re::render::Model>> = mk();
-    let b: re::math::mat::Mat4x4<re::math::mat::RealToReal<3, (), re::render::World>> = mk();
-    let _ = a.compose(&b);
-}
-
-pub fn p621() {
-    let a: re::math::mat::Mat4x4<re::math::mat::RealToReal<3, re::render::World, re::render::Model>> = mk();
-    let b: re::math::mat::Mat4x4<re::math::mat::RealToReal<3, re::render::World, re::render::World>> = mk();
-    let _r: re::math::mat::Mat4x4<re::math::mat::RealToReal<3, re::render::World, re::render::Model>> = a.compose(&b);
-}
-
-pub fn p624() {
-    let a: re::math::mat::Mat4x4<re::math::mat::RealToReal<3, re::render::World, re::render::Model>> = mk();
-    let b: re::math::mat::Mat4x4<re::math::mat::RealToReal<3, re::render::World, re::render::World>> = mk();
-    let _ = a.compose(&b);
-}
-
-pub fn p626() {
-    let a: re::math::mat::Mat4x4<re::math::mat::RealToReal<3, re::render::World, re::render::Model>> = mk();
-    let b: re::math::mat::Mat4x4<re::math::mat::RealToProj<re::render::Model>> = mk();
-    let _ = a.then(&b);
-}
-
-pub fn p642() {
-    let a: re::math::mat::Mat4x4<re::math::mat::RealToReal<3, re::render::World, re::render::Model>> = mk();
-    let b: re::math::point::Point3<re::render::World> = mk();
-    let _r: re::math::point::Point3<re::render::Model> = a.apply_pt(&b);
-}
-
-pub fn p645() {
-    let a: re::math::mat::Mat4x4<re::math::mat::RealToReal<3, re::render::World, re::render::Model>> = mk();
-    let b: re::math::point::Point3<re::render::World> = mk();
-    let _ = a.apply_pt(&b);
-}
-
-pub fn p657() {
-    let a: re::math::mat::Mat4x4<re::math::mat::RealToReal<3, re::render::World, re::render::Model>> = mk();
-    let b: re::math::vec::Vec3<re::render::World> = mk();
-    let _r: re::math::vec::Vec3<re::render::Model> = a.apply(&b);
-}
-
-pub fn p660() {
-    let a: re::math::mat::Mat4x4<re::math::mat::RealToReal<3, re::render::World, re::render::Model>> = mk();
-    let b: re::math::vec::Vec3<re::render::World> = mk();
-    let _ = a.apply(&b);
-}
-
-pub fn p661() {
-    let a: re::math::mat::Mat4x4<re::math::mat::RealToReal<3, re::render::World, re::render::Model>> = mk();
-    let _ = a.determinant();
-}
-
-pub fn p662() {
-    let a: re::math::mat::Mat4x4<re::math::mat::RealToReal<3, re::render::World, re::render::Model>> = mk();
-    let _ = a.inverse();
-}
-
-pub fn p663() {
-    let a: re::math::mat::Mat4x4<re::math::mat::RealToReal<3, re::render::World, re::render::Model>> = mk();
-    let _ = a.transpose();
-}
-
-pub fn p669() {
-    let a: re::math::mat::Mat4x4<re::math::mat::RealToReal<3, re::render::World, ()>> = mk();
-    let b: re::math::mat::Mat4x4<re::math::mat::RealToReal<3, re::render::Model, re::render::World>> = mk();
-    let _ = a.compose(&b);
-}
-
-pub fn p671() {
-    let a: re::math::mat::Mat4x4<re::math::mat::RealToReal<3, re::render::World, ()>> = mk();
-    let b: re::math::mat::Mat4x4<re::math::mat::RealToReal<3, (), re::render::Model>> = mk();
-    let _ = a.then(&b);
-}
-
-pub fn p673() {
-    let a: re::math::mat::Mat4x4<re::math::mat::RealToReal<3, re::render::World, ()>> = mk();
-    let b: re::math::mat::Mat4x4<re::math::mat::RealToReal<3, (), ()>> = mk();
-    let _ = a.then(&b);
-}
-
-pub fn p674() {
-    let a: re::math::mat::Mat4x4<re::math::mat::RealToReal<3, re::render::World, ()>> = mk();
-    let b: re::math::mat::Mat4x4<re::math::mat::RealToReal<3, (), re::render::World>> = mk();
-    let _ = a.compose(&b);
-}
-
-pub fn p675() {
-    let a: re::math::mat::Mat4x4<re::math::mat::RealToReal<3, re::render::World, ()>> = mk();
-    let b: re::math::mat::Mat4x4<re::math::mat::RealToReal<3, (), re::render::World>> = mk();
-    let _ = a.then(&b);
-}
-
-pub fn p681() {
-    let a: re::math::mat::Mat4x4<re::math::mat::RealToReal<3, re::render::World, ()>> = mk();
-    let b: re::math::mat::Mat4x4<re::math::mat::RealToReal<3, re::render::World, re::render::World>> = mk();
-    let _ = a.compose(&b);
-}
-
-pub fn p685() {
-    let a: re::math::mat::Mat4x4<re::math::mat::RealToReal<3, re::render::World, ()>> = mk();
-    let b: re::math::mat::Mat4x4<re::math::mat::RealToProj<()>> = mk();
-    let _ = a.then(&b);
-}
-
-pub fn p700() {
-    let a: re::math::mat::Mat4x4<re::math::mat::RealToReal<3, re::render::World, ()>> = mk();
-    let b: re::math::point::Point3<re::render::World> = mk();
-    let _r: re::math::point::Point3<()> = a.apply_pt(&b);
-}
-
-pub fn p702() {
-    let a: re::math::mat::Mat4x4<re::math::mat::RealToReal<3, re::render::World, ()>> = mk();
-    let b: re::math::point::Point3<re::render::World> = mk();
-    let _ = a.apply_pt(&b);
-}
-
-pub fn p715() {
-    let a: re::math::mat::Mat4x4<re::math::mat::RealToReal<3, re::render::World, ()>> = mk();
-    let b: re::math::vec::Vec3<re::render::World> = mk();
-    let _r: re::math::vec::Vec3<()> = a.apply(&b);
-}
-
-pub fn p717() {
-    let a: re::math::mat::Mat4x4<re::math::mat::RealToReal<3, re::render::World, ()>> = mk();
-    let b: re::math::vec::Vec3<re::render::World> = mk();
-    let _ = a.apply(&b);
-}
-
-pub fn p718() {
-    let a: re::math::mat::Mat4x4<re::math::mat::RealToReal<3, re::render::World, ()>> = mk();
-    let _ = a.determinant();
-}
-
-pub fn p719() {
-    let a: re::math::mat::Mat4x4<re::math::mat::RealToReal<3, re::render::World, ()>> = mk();
-    let _ = a.inverse();
-}
-
-pub fn p720() {
-    let a: re::math::mat::Mat4x4<re::math::mat::RealToReal<3, re::render::World, ()>> = mk();
-    let _ = a.transpose();
-}
-
 pub fn p722() {
-    let a: re::math::mat::Mat4x4<re::math::mat::RealToReal<3, re::render::World, crate::UserTag>> = mk();
-    let b: re::math::mat::Mat4x4<re::math::mat::RealToReal<3, crate::UserTag, crate::UserTag>> = mk();
-    let _ = a.then(&b);
+    let a: re::math::mat::Mat4x4<re::math::mat::RealToReal<3, (), re::render::World>> = mk();
+    let _ = a.determinant();
 }
 
 pub fn p723() {
-    let a: re::math::mat::Mat4x4<re::math::mat::RealToReal<3, re::render::World, crate::UserTag>> = mk();
-    let b: re::math::mat::Mat4x4<re::math::mat::RealToReal<3, crate::UserTag, re::render::World>> = mk();
-    let _ = a.compose(&b);
+    let a: re::math::mat::Mat4x4<re::math::mat::RealToReal<3, (), re::render::World>> = mk();
+    let _ = a.inverse();
 }
 
 pub fn p724() {
-    let a: re::math::mat::Mat4x4<re::math::mat::RealToReal<3, re::render::World, crate::UserTag>> = mk();
-    let b: re::math::mat::Mat4x4<re::math::mat::RealToReal<3, crate::UserTag, re::render::World>> = mk();
+    let a: re::math::mat::Mat4x4<re::math::mat::RealToReal<3, (), re::render::World>> = mk();
+    let _ = a.transpose();
+}
+
+pub fn p725() {
+    let a: re::math::mat::Mat4x4<re::math::mat::RealToReal<3, crate::UserTag, crate::UserTag>> = mk();
+    let b: re::math::mat::Mat4x4<re::math::mat::RealToReal<3, crate::UserTag, crate::UserTag>> = mk();
+    let _ = a.compose(&b);
+}
+
+pub fn p726() {
+    let a: re::math::mat::Mat4x4<re::math::mat::RealToReal<3, crate::UserTag, crate::UserTag>> = mk();
+    let b: re::math::mat::Mat4x4<re::math::mat::RealToReal<3, crate::UserTag, crate::UserTag>> = mk();
     let _ = a.then(&b);
 }
 
 pub fn p728() {
+    let a: re::math::mat::Mat4x4<re::math::mat::RealToReal<3, crate::UserTag, crate::UserTag>> = mk();
+    let b: re::math::mat::Mat4x4<re::math::mat::RealToReal<3, crate::UserTag, re::render::World>> = mk();
+    let _ = a.then(&b);
+}
+
+pub fn p730() {
+    let a: re::math::mat::Mat4x4<re::math::mat::RealToReal<3, crate::UserTag, crate::UserTag>> = mk();
+    let b: re::math::mat::Mat4x4<re::math::mat::RealToReal<3, re::render::World, crate::UserTag>> = mk();
+    let _ = a.compose(&b);
+}
+
+pub fn p731() {
+    let a: re::math::mat::Mat4x4<re::math::mat::RealToReal<3, crate::UserTag, crate::UserTag>> = mk();
+    let b: re::math::point::Point3<crate::UserTag> = mk();
+    let _ = a.apply_pt(&b);
+}
+
+pub fn p733() {
+    let a: re::math::mat::Mat4x4<re::math::mat::RealToReal<3, crate::UserTag, crate::UserTag>> = mk();
+    let b: re::math::vec::Vec3<crate::UserTag> = mk();
+    let _ = a.apply(&b);
+}
+
+pub fn p735() {
+    let a: re::math::mat::Mat4x4<re::math::mat::RealToReal<3, crate::UserTag, crate::UserTag>> = mk();
+    let _ = a.determinant();
+}
+
+pub fn p736() {
+    let a: re::math::mat::Mat4x4<re::math::mat::RealToReal<3, crate::UserTag, crate::UserTag>> = mk();
+    let _ = a.inverse();
+}
+
+pub fn p737() {
+    let a: re::math::mat::Mat4x4<re::math::mat::RealToReal<3, crate::UserTag, crate::UserTag>> = mk();
+    let _ = a.transpose();
+}
+
+pub fn p739() {
+    let a: re::math::mat::Mat4x4<re::math::mat::RealToReal<3, crate::UserTag, re::render::World>> = mk();
+    let b: re::math::mat::Mat4x4<re::math::mat::RealToReal<3, crate::UserTag, crate::UserTag>> = mk();
+    let _ = a.compose(&b);
+}
+
+pub fn p742() {
+    let a: re::math::mat::Mat4x4<re::math::mat::RealToReal<3, crate::UserTag, re::render::World>> = mk();
+    let b: re::math::mat::Mat4x4<re::math::mat::RealToReal<3, re::render::World, crate::UserTag>> = mk();
+    let _ = a.compose(&b);
+}
+
+pub fn p743() {
+    let a: re::math::mat::Mat4x4<re::math::mat::RealToReal<3, crate::UserTag, re::render::World>> = mk();
+    let b: re::math::mat::Mat4x4<re::math::mat::RealToReal<3, re::render::World, crate::UserTag>> = mk();
+    let _ = a.then(&b);
+}
+
+pub fn p744() {
+    let a: re::math::mat::Mat4x4<re::math::mat::RealToReal<3, crate::UserTag, re::render::World>> = mk();
+    let b: re::math::point::Point3<crate::UserTag> = mk();
+    let _ = a.apply_pt(&b);
+}
+
+pub fn p746() {
+    let a: re::math::mat::Mat4x4<re::math::mat::RealToReal<3, crate::UserTag, re::render::World>> = mk();
+    let b: re::math::vec::Vec3<crate::UserTag> = mk();
+    let _ = a.apply(&b);
+}
+
+pub fn p748() {
+    let a: re::math::mat::Mat4x4<re::math::mat::RealToReal<3, crate::UserTag, re::render::World>> = mk();
+    let _ = a.determinant();
+}
+
+pub fn p749() {
+    let a: re::math::mat::Mat4x4<re::math::mat::RealToReal<3, crate::UserTag, re::render::World>> = mk();
+    let _ = a.inverse();
+}
+
+pub fn p750() {
+    let a: re::math::mat::Mat4x4<re::math::mat::RealToReal<3, crate::UserTag, re::render::World>> = mk();
+    let _ = a.transpose();
+}
+
+pub fn p751() {
+    let a: re::math::mat::Mat4x4<re::math::mat::RealToReal<3, re::render::View, re::render::Model>> = mk();
+    let b: re::math::mat::Mat4x4<re::render::ModelToProj> = mk();
+    let _ = a.then(&b);
+}
+
+pub fn p752() {
+    let a: re::math::mat::Mat4x4<re::math::mat::RealToReal<3, re::render::View, re::render::Model>> = mk();
+    let b: re::math::mat::Mat4x4<re::render::ModelToView> = mk();
+    let _ = a.then(&b);
+}
+
+pub fn p753() {
+    let a: re::math::mat::Mat4x4<re::math::mat::RealToReal<3, re::render::View, re::render::Model>> = mk();
+    let b: re::math::mat::Mat4x4<re::render::ModelToWorld> = mk();
+    let _ = a.then(&b);
+}
+
+pub fn p759() {
+    let a: re::math::mat::Mat4x4<re::math::mat::RealToReal<3, re::render::View, re::render::Model>> = mk();
+    let b: re::math::point::Point3<re::render::View> = mk();
+    let _ = a.apply_pt(&b);
+}
+
+pub fn p763() {
+    let a: re::math::mat::Mat4x4<re::math::mat::RealToReal<3, re::render::View, re::render::Model>> = mk();
+    let _ = re::render::cam::Camera::new((8, 8)).mode(a.to());
+}
+
+pub fn p767() {
+    let a: re::math::mat::Mat4x4<re::math::mat::RealToReal<3, re::render::View, re::render::View>> = mk();
+    let b: re::math::mat::Mat4x4<re::render::ViewToProj> = mk();
+    let _ = a.then(&b);
+}
+
+pub fn p772() {
+    let a: re::math::mat::Mat4x4<re::math::mat::RealToReal<3, re::render::View, re::render::View>> = mk();
+    let b: re::math::point::Point3<re::render::View> = mk();
+    let _ = a.apply_pt(&b);
+}
+
+pub fn p776() {
+    let a: re::math::mat::Mat4x4<re::math::mat::RealToReal<3, re::render::View, re::render::View>> = mk();
+    let _ = re::render::cam::Camera::new((8, 8)).mode(a.to());
+}
+
+pub fn p781() {
+    let a: re::math::mat::Mat4x4<re::math::mat::RealToReal<3, re::render::View, re::render::World>> = mk();
+    let b: re::math::mat::Mat4x4<re::render::WorldToView> = mk();
+    let _ = a.then(&b);
+}
+
+pub fn p785() {
+    let a: re::math::mat::Mat4x4<re::math::mat::RealToReal<3, re::render::View, re::render::World>> = mk();
+    let b: re::math::point::Point3<re::render::View> = mk();
+    let _ = a.apply_pt(&b);
+}
+
+pub fn p789() {
+    let a: re::math::mat::Mat4x4<re::math::mat::RealToReal<3, re::render::View, re::render::World>> = mk();
+    let _ = re::render::cam::Camera::new((8, 8)).mode(a.to());
+}
+
+pub fn p790() {
+    let a: re::math::mat::Mat4x4<re::math::mat::RealToReal<3, re::render::World, re::render::Model>> = mk();
+    let b: re::math::mat::Mat4x4<re::render::ModelToProj> = mk();
+    let _ = a.then(&b);
+}
+
+pub fn p791() {
+    let a: re::math::mat::Mat4x4<re::math::mat::RealToReal<3, re::render::World, re::render::Model>> = mk();
+    let b: re::math::mat::Mat4x4<re::render::ModelToView> = mk();
+    let _ = a.then(&b);
+}
+
+pub fn p792() {
+    let a: re::math::mat::Mat4x4<re::math::mat::RealToReal<3, re::render::World, re::render::Model>> = mk();
+    let b: re::math::mat::Mat4x4<re::render::ModelToWorld> = mk();
+    let _ = a.then(&b);
+}
+
+pub fn p800() {
+    let a: re::math::mat::Mat4x4<re::math::mat::RealToReal<3, re::render::World, re::render::Model>> = mk();
+    let b: re::math::mat::Mat4x4<re::math::mat::RealToReal<3, re::render::Model, re::render::Model>> = mk();
+    let _ = a.then(&b);
+}
+
+pub fn p802() {
+    let a: re::math::mat::Mat4x4<re::math::mat::RealToReal<3, re::render::World, re::render::Model>> = mk();
+    let b: re::math::mat::Mat4x4<re::math::mat::RealToReal<3, re::render::Model, ()>> = mk();
+    let _ = a.then(&b);
+}
+
+pub fn p803() {
+    let a: re::math::mat::Mat4x4<re::math::mat::RealToReal<3, re::render::World, re::render::Model>> = mk();
+    let b: re::math::mat::Mat4x4<re::math::mat::RealToReal<3, re::render::Model, re::render::World>> = mk();
+    let _r: re::math::mat::Mat4x4<re::math::mat::RealToReal<3, re::render::Model, re::render::Model>> = a.compose(&b);
+}
+
+pub fn p807() {
+    let a: re::math::mat::Mat4x4<re::math::mat::RealToReal<3, re::render::World, re::render::Model>> = mk();
+    let b: re::math::mat::Mat4x4<re::math::mat::RealToReal<3, re::render::Model, re::render::World>> = mk();
+    let _ = a.compose(&b);
+}
+
+pub fn p808() {
+    let a: re::math::mat::Mat4x4<re::math::mat::RealToReal<3, re::render::World, re::render::Model>> = mk();
+    let b: re::math::mat::Mat4x4<re::math::mat::RealToReal<3, re::render::Model, re::render::World>> = mk();
+    let _ = a.then(&b);
+}
+
+pub fn p814() {
+    let a: re::math::mat::Mat4x4<re::math::mat::RealToReal<3, re::render::World, re::render::Model>> = mk();
+    let b: re::math::mat::Mat4x4<re::math::mat::RealToReal<3, (), re::render::World>> = mk();
+    let _ = a.compose(&b);
+}
+
+pub fn p825() {
+    let a: re::math::mat::Mat4x4<re::math::mat::RealToReal<3, re::render::World, re::render::Model>> = mk();
+    let b: re::math::mat::Mat4x4<re::math::mat::RealToReal<3, re::render::World, re::render::World>> = mk();
+    let _r: re::math::mat::Mat4x4<re::math::mat::RealToReal<3, re::render::World, re::render::Model>> = a.compose(&b);
+}
+
+pub fn p828() {
+    let a: re::math::mat::Mat4x4<re::math::mat::RealToReal<3, re::render::World, re::render::Model>> = mk();
+    let b: re::math::mat::Mat4x4<re::math::mat::RealToReal<3, re::render::World, re::render::World>> = mk();
+    let _ = a.compose(&b);
+}
+
+pub fn p830() {
+    let a: re::math::mat::Mat4x4<re::math::mat::RealToReal<3, re::render::World, re::render::Model>> = mk();
+    let b: re::math::mat::Mat4x4<re::math::mat::RealToProj<re::render::Model>> = mk();
+    let _ = a.then(&b);
+}
+
+pub fn p849() {
+    let a: re::math::mat::Mat4x4<re::math::mat::RealToReal<3, re::render::World, re::render::Model>> = mk();
+    let b: re::math::point::Point3<re::render::World> = mk();
+    let _r: re::math::point::Point3<re::render::Model> = a.apply_pt(&b);
+}
+
+pub fn p853() {
+    let a: re::math::mat::Mat4x4<re::math::mat::RealToReal<3, re::render::World, re::render::Model>> = mk();
+    let b: re::math::point::Point3<re::render::World> = mk();
+    let _ = a.apply_pt(&b);
+}
+
+pub fn p865() {
+    let a: re::math::mat::Mat4x4<re::math::mat::RealToReal<3, re::render::World, re::render::Model>> = mk();
+    let b: re::math::vec::Vec3<re::render::World> = mk();
+    let _r: re::math::vec::Vec3<re::render::Model> = a.apply(&b);
+}
+
+pub fn p868() {
+    let a: re::math::mat::Mat4x4<re::math::mat::RealToReal<3, re::render::World, re::render::Model>> = mk();
+    let b: re::math::vec::Vec3<re::render::World> = mk();
+    let _ = a.apply(&b);
+}
+
+pub fn p870() {
+    let a: re::math::mat::Mat4x4<re::math::mat::RealToReal<3, re::render::World, re::render::Model>> = mk();
+    let _ = re::render::cam::Camera::new((8, 8)).mode(a.to());
+}
+
+pub fn p871() {
+    let a: re::math::mat::Mat4x4<re::math::mat::RealToReal<3, re::render::World, re::render::Model>> = mk();
+    let _ = a.determinant();
+}
+
+pub fn p872() {
+    let a: re::math::mat::Mat4x4<re::math::mat::RealToReal<3, re::render::World, re::render::Model>> = mk();
+    let _ = a.inverse();
+}
+
+pub fn p873() {
+    let a: re::math::mat::Mat4x4<re::math::mat::RealToReal<3, re::render::World, re::render::Model>> = mk();
+    let _ = a.transpose();
+}
+
+pub fn p879() {
+    let a: re::math::mat::Mat4x4<re::math::mat::RealToReal<3, re::render::World, ()>> = mk();
+    let b: re::math::mat::Mat4x4<re::math::mat::RealToReal<3, re::render::Model, re::render::World>> = mk();
+    let _ = a.compose(&b);
+}
+
+pub fn p881() {
+    let a: re::math::mat::Mat4x4<re::math::mat::RealToReal<3, re::render::World, ()>> = mk();
+    let b: re::math::mat::Mat4x4<re::math::mat::RealToReal<3, (), re::render::Model>> = mk();
+    let _ = a.then(&b);
+}
+
+pub fn p883() {
+    let a: re::math::mat::Mat4x4<re::math::mat::RealToReal<3, re::render::World, ()>> = mk();
+    let b: re::math::mat::Mat4x4<re::math::mat::RealToReal<3, (), ()>> = mk();
+    let _ = a.then(&b);
+}
+
+pub fn p884() {
+    let a: re::math::mat::Mat4x4<re::math::mat::RealToReal<3, re::render::World, ()>> = mk();
+    let b: re::math::mat::Mat4x4<re::math::mat::RealToReal<3, (), re::render::World>> = mk();
+    let _ = a.compose(&b);
+}
+
+pub fn p885() {
+    let a: re::math::mat::Mat4x4<re::math::mat::RealToReal<3, re::render::World, ()>> = mk();
+    let b: re::math::mat::Mat4x4<re::math::mat::RealToReal<3, (), re::render::World>> = mk();
+    let _ = a.then(&b);
+}
+
+pub fn p891() {
+    let a: re::math::mat::Mat4x4<re::math::mat::RealToReal<3, re::render::World, ()>> = mk();
+    let b: re::math::mat::Mat4x4<re::math::mat::RealToReal<3, re::render::World, re::render::World>> = mk();
+    let _ = a.compose(&b);
+}
+
+pub fn p895() {
+    let a: re::math::mat::Mat4x4<re::math::mat::RealToReal<3, re::render::World, ()>> = mk();
+    let b: re::math::mat::Mat4x4<re::math::mat::RealToProj<()>> = mk();
+    let _ = a.then(&b);
+}
+
+pub fn p910() {
+    let a: re::math::mat::Mat4x4<re::math::mat::RealToReal<3, re::render::World, ()>> = mk();
+    let b: re::math::point::Point3<re::render::World> = mk();
+    let _r: re::math::point::Point3<()> = a.apply_pt(&b);
+}
+
+pub fn p912() {
+    let a: re::math::mat::Mat4x4<re::math::mat::RealToReal<3, re::render::World, ()>> = mk();
+    let b: re::math::point::Point3<re::render::World> = mk();
+    let _ = a.apply_pt(&b);
+}
+
+pub fn p925() {
+    let a: re::math::mat::Mat4x4<re::math::mat::RealToReal<3, re::render::World, ()>> = mk();
+    let b: re::math::vec::Vec3<re::render::World> = mk();
+    let _r: re::math::vec::Vec3<()> = a.apply(&b);
+}
+
+pub fn p927() {
+    let a: re::math::mat::Mat4x4<re::math::mat::RealToReal<3, re::render::World, ()>> = mk();
+    let b: re::math::vec::Vec3<re::render::World> = mk();
+    let _ = a.apply(&b);
+}
+
+pub fn p928() {
+    let a: re::math::mat::Mat4x4<re::math::mat::RealToReal<3, re::render::World, ()>> = mk();
+    let _ = a.determinant();
+}
+
+pub fn p929() {
+    let a: re::math::mat::Mat4x4<re::math::mat::RealToReal<3, re::render::World, ()>> = mk();
+    let _ = a.inverse();
+}
+
+pub fn p930() {
+    let a: re::math::mat::Mat4x4<re::math::mat::RealToReal<3, re::render::World, ()>> = mk();
+    let _ = a.transpose();
+}
+
+pub fn p932() {
+    let a: re::math::mat::Mat4x4<re::math::mat::RealToReal<3, re::render::World, crate::UserTag>> = mk();
+    let b: re::math::mat::Mat4x4<re::math::mat::RealToReal<3, crate::UserTag, crate::UserTag>> = mk();
+    let _ = a.then(&b);
+}
+
+pub fn p933() {
+    let a: re::math::mat::Mat4x4<re::math::mat::RealToReal<3, re::render::World, crate::UserTag>> = mk();
+    let b: re::math::mat::Mat4x4<re::math::mat::RealToReal<3, crate::UserTag, re::render::World>> = mk();
+    let _ = a.compose(&b);
+}
+
+pub fn p934() {
+    let a: re::math::mat::Mat4x4<re::math::mat::RealToReal<3, re::render::World, crate::UserTag>> = mk();
+    let b: re::math::mat::Mat4x4<re::math::mat::RealToReal<3, crate::UserTag, re::render::World>> = mk();
+    let _ = a.then(&b);
+}
+
+pub fn p938() {
     let a: re::math::mat::Mat4x4<re::math::mat::RealToReal<3, re::render::World, crate::UserTag>> = mk();
     let b: re::math::point::Point3<re::render::World> = mk();
     let _ = a.apply_pt(&b);
 }
 
-pub fn p730() {
+pub fn p940() {
     let a: re::math::mat::Mat4x4<re::math::mat::RealToReal<3, re::render::World, crate::UserTag>> = mk();
     let b: re::math::vec::Vec3<re::render::World> = mk();
     let _ = a.apply(&b);
 }
 
-pub fn p731() {
+pub fn p941() {
     let a: re::math::mat::Mat4x4<re::math::mat::RealToReal<3, re::render::World, crate::UserTag>> = mk();
     let _ = a.determinant();
 }
 
-pub fn p732() {
+pub fn p942() {
     let a: re::math::mat::Mat4x4<re::math::mat::RealToReal<3, re::render::World, crate::UserTag>> = mk();
     let _ = a.inverse();
 }
 
-pub fn p733() {
+pub fn p943() {
     let a: re::math::mat::Mat4x4<re::math::mat::RealToReal<3, re::render::World, crate::UserTag>> = mk();
     let _ = a.transpose();
 }
 
-pub fn p743() {
+pub fn p947() {
+    let a: re::math::mat::Mat4x4<re::math::mat::RealToReal<3, re::render::World, re::render::View>> = mk();
+    let b: re::math::mat::Mat4x4<re::render::ViewToProj> = mk();
+    let _ = a.then(&b);
+}
+
+pub fn p954() {
+    let a: re::math::mat::Mat4x4<re::math::mat::RealToReal<3, re::render::World, re::render::View>> = mk();
+    let b: re::math::point::Point3<re::render::World> = mk();
+    let _ = a.apply_pt(&b);
+}
+
+pub fn p955() {
+    let a: re::math::mat::Mat4x4<re::math::mat::RealToReal<3, re::render::World, re::render::View>> = mk();
+    let _ = re::render::cam::Camera::new((8, 8)).mode(a);
+}
+
+pub fn p956() {
+    let a: re::math::mat::Mat4x4<re::math::mat::RealToReal<3, re::render::World, re::render::View>> = mk();
+    let _ = re::render::cam::Camera::new((8, 8)).mode(a.to());
+}
+
+pub fn p961() {
+    let a: re::math::mat::Mat4x4<re::math::mat::RealToReal<3, re::render::World, re::render::World>> = mk();
+    let b: re::math::mat::Mat4x4<re::render::WorldToView> = mk();
+    let _ = a.then(&b);
+}
+
+pub fn p971() {
     let a: re::math::mat::Mat4x4<re::math::mat::RealToReal<3, re::render::World, re::render::World>> = mk();
     let b: re::math::mat::Mat4x4<re::math::mat::RealToReal<3, re::render::Model, re::render::World>> = mk();
     let _r: re::math::mat::Mat4x4<re::math::mat::RealToReal<3, re::render::Model, re::render::World>> = a.compose(&b);
 }
 
-pub fn p747() {
+pub fn p975() {
     let a: re::math::mat::Mat4x4<re::math::mat::RealToReal<3, re::render::World, re::render::World>> = mk();
     let b: re::math::mat::Mat4x4<re::math::mat::RealToReal<3, re::render::Model, re::render::World>> = mk();
     let _ = a.compose(&b);
 }
 
-pub fn p753() {
+pub fn p981() {
     let a: re::math::mat::Mat4x4<re::math::mat::RealToReal<3, re::render::World, re::render::World>> = mk();
     let b: re::math::mat::Mat4x4<re::math::mat::RealToReal<3, (), re::render::World>> = mk();
     let _ = a.compose(&b);
 }
 
-pub fn p759() {
+pub fn p987() {
     let a: re::math::mat::Mat4x4<re::math::mat::RealToReal<3, re::render::World, re::render::World>> = mk();
     let b: re::math::mat::Mat4x4<re::math::mat::RealToReal<3, re::render::World, re::render::Model>> = mk();
     let _ = a.then(&b);
 }
 
-pub fn p761() {
+pub fn p989() {
     let a: re::math::mat::Mat4x4<re::math::mat::RealToReal<3, re::render::World, re::render::World>> = mk();
     let b: re::math::mat::Mat4x4<re::math::mat::RealToReal<3, re::render::World, ()>> = mk();
     let _ = a.then(&b);
 }
 
-pub fn p765() {
+pub fn p993() {
     let a: re::math::mat::Mat4x4<re::math::mat::RealToReal<3, re::render::World, re::render::World>> = mk();
     let b: re::math::mat::Mat4x4<re::math::mat::RealToReal<3, re::render::World, re::render::World>> = mk();
     let _r: re::math::mat::Mat4x4<re::math::mat::RealToReal<3, re::render::World, re::render::World>> = a.compose(&b);
 }
 
-pub fn p766() {
+pub fn p994() {
     let a: re::math::mat::Mat4x4<re::math::mat::RealToReal<3, re::render::World, re::render::World>> = mk();
     let b: re::math::mat::Mat4x4<re::math::mat::RealToReal<3, re::render::World, re::render::World>> = mk();
     let _ = a.compose(&b);
 }
 
-pub fn p767() {
+pub fn p995() {
     let a: re::math::mat::Mat4x4<re::math::mat::RealToReal<3, re::render::World, re::render::World>> = mk();
     let b: re::math::mat::Mat4x4<re::math::mat::RealToReal<3, re::render::World, re::render::World>> = mk();
     let _ = a.then(&b);
 }
 
-pub fn p773() {
+pub fn p1001() {
     let a: re::math::mat::Mat4x4<re::math::mat::RealToReal<3, re::render::World, re::render::World>> = mk();
     let b: re::math::mat::Mat4x4<re::math::mat::RealToProj<re::render::World>> = mk();
     let _ = a.then(&b);
 }
 
-pub fn p787() {
+pub fn p1018() {
     let a: re::math::mat::Mat4x4<re::math::mat::RealToReal<3, re::render::World, re::render::World>> = mk();
     let b: re::math::point::Point3<re::render::World> = mk();
     let _r: re::math::point::Point3<re::render::World> = a.apply_pt(&b);
 }
 
-pub fn p788() {
+pub fn p1020() {
     let a: re::math::mat::Mat4x4<re::math::mat::RealToReal<3, re::render::World, re::render::World>> = mk();
     let b: re::math::point::Point3<re::render::World> = mk();
     let _ = a.apply_pt(&b);
 }
 
-pub fn p802() {
+pub fn p1034() {
     let a: re::math::mat::Mat4x4<re::math::mat::RealToReal<3, re::render::World, re::render::World>> = mk();
     let b: re::math::vec::Vec3<re::render::World> = mk();
     let _r: re::math::vec::Vec3<re::render::World> = a.apply(&b);
 }
 
-pub fn p803() {
+pub fn p1035() {
     let a: re::math::mat::Mat4x4<re::math::mat::RealToReal<3, re::render::World, re::render::World>> = mk();
     let b: re::math::vec::Vec3<re::render::World> = mk();
     let _ = a.apply(&b);
 }
 
-pub fn p804() {
+pub fn p1037() {
+    let a: re::math::mat::Mat4x4<re::math::mat::RealToReal<3, re::render::World, re::render::World>> = mk();
+    let _ = re::render::cam::Camera::new((8, 8)).mode(a.to());
+}
+
+pub fn p1038() {
     let a: re::math::mat::Mat4x4<re::math::mat::RealToReal<3, re::render::World, re::render::World>> = mk();
     let _ = a.determinant();
 }
 
-pub fn p805() {
+pub fn p1039() {
     let a: re::math::mat::Mat4x4<re::math::mat::RealToReal<3, re::render::World, re::render::World>> = mk();
     let _ = a.inverse();
 }
 
-pub fn p806() {
+pub fn p1040() {
     let a: re::math::mat::Mat4x4<re::math::mat::RealToReal<3, re::render::World, re::render::World>> = mk();
     let _ = a.transpose();
 }
 
-pub fn p808() {
+pub fn p1047() {
     let a: re::math::mat::Mat4x4<re::math::mat::RealToProj<re::render::Model>> = mk();
     let b: re::math::mat::Mat4x4<re::math::mat::RealToReal<3, re::render::Model, re::render::Model>> = mk();
     let _ = a.compose(&b);
 }
 
-pub fn p814() {
+pub fn p1053() {
     let a: re::math::mat::Mat4x4<re::math::mat::RealToProj<re::render::Model>> = mk();
     let b: re::math::mat::Mat4x4<re::math::mat::RealToReal<3, (), re::render::Model>> = mk();
     let _ = a.compose(&b);
 }
 
-pub fn p820() {
+pub fn p1059() {
     let a: re::math::mat::Mat4x4<re::math::mat::RealToProj<re::render::Model>> = mk();
     let b: re::math::mat::Mat4x4<re::math::mat::RealToReal<3, re::render::World, re::render::Model>> = mk();
     let _ = a.compose(&b);
 }
 
-pub fn p825() {
+pub fn p1064() {
     let a: re::math::mat::Mat4x4<re::math::mat::RealToProj<re::render::Model>> = mk();
     let b: re::math::point::Point3<re::render::Model> = mk();
     let _ = a.apply(&b);
 }
 
-pub fn p840() {
+pub fn p1076() {
+    let a: re::math::mat::Mat4x4<re::math::mat::RealToProj<re::render::Model>> = mk();
+    let _ = re::render::cam::Camera::new((8, 8)).mode(a.to());
+}
+
+pub fn p1083() {
     let a: re::math::mat::Mat4x4<re::math::mat::RealToProj<()>> = mk();
     let b: re::math::mat::Mat4x4<re::math::mat::RealToReal<3, re::render::Model, ()>> = mk();
     let _ = a.compose(&b);
 }
 
-pub fn p846() {
+pub fn p1089() {
     let a: re::math::mat::Mat4x4<re::math::mat::RealToProj<()>> = mk();
     let b: re::math::mat::Mat4x4<re::math::mat::RealToReal<3, (), ()>> = mk();
     let _ = a.compose(&b);
 }
 
-pub fn p852() {
+pub fn p1095() {
     let a: re::math::mat::Mat4x4<re::math::mat::RealToProj<()>> = mk();
     let b: re::math::mat::Mat4x4<re::math::mat::RealToReal<3, re::render::World, ()>> = mk();
     let _ = a.compose(&b);
 }
 
-pub fn p857() {
+pub fn p1100() {
     let a: re::math::mat::Mat4x4<re::math::mat::RealToProj<()>> = mk();
     let b: re::math::point::Point3<()> = mk();
     let _ = a.apply(&b);
 }
 
-pub fn p872() {
+pub fn p1117() {
+    let a: re::math::mat::Mat4x4<re::math::mat::RealToProj<re::render::View>> = mk();
+    let b: re::math::point::Point3<re::render::View> = mk();
+    let _ = a.apply(&b);
+}
+
+pub fn p1122() {
+    let a: re::math::mat::Mat4x4<re::math::mat::RealToProj<re::render::View>> = mk();
+    let _ = re::render::cam::Camera::new((8, 8)).mode(a.to());
+}
+
+pub fn p1133() {
     let a: re::math::mat::Mat4x4<re::math::mat::RealToProj<re::render::World>> = mk();
     let b: re::math::mat::Mat4x4<re::math::mat::RealToReal<3, re::render::Model, re::render::World>> = mk();
     let _ = a.compose(&b);
 }
 
-pub fn p878() {
+pub fn p1139() {
     let a: re::math::mat::Mat4x4<re::math::mat::RealToProj<re::render::World>> = mk();
     let b: re::math::mat::Mat4x4<re::math::mat::RealToReal<3, (), re::render::World>> = mk();
     let _ = a.compose(&b);
 }
 
-pub fn p884() {
+pub fn p1145() {
     let a: re::math::mat::Mat4x4<re::math::mat::RealToProj<re::render::World>> = mk();
     let b: re::math::mat::Mat4x4<re::math::mat::RealToReal<3, re::render::World, re::render::World>> = mk();
     let _ = a.compose(&b);
 }
 
-pub fn p889() {
+pub fn p1152() {
     let a: re::math::mat::Mat4x4<re::math::mat::RealToProj<re::render::World>> = mk();
     let b: re::math::point::Point3<re::render::World> = mk();
     let _ = a.apply(&b);
 }
 
-pub fn p903() {
+pub fn p1158() {
+    let a: re::math::mat::Mat4x4<re::math::mat::RealToProj<re::render::World>> = mk();
+    let _ = re::render::cam::Camera::new((8, 8)).mode(a.to());
+}
+
+pub fn p1168() {
     use re::geom::{Tri, Vertex};
     let vs = |_: Vertex<re::math::point::Point3<re::render::Model>, ()>, _: ()| -> Vertex<re::math::vec::ProjVec4, f32> { mk() };
     let fs = |_: re::render::raster::Frag<f32>| -> Option<re::math::color::Color4> { mk() };
@@ -1268,61 +1567,61 @@ pub fn p903() {
     re::render::render(&tris, &verts, &sh, (), mk(), &mut target, &mk::<re::render::Context>());
 }
 
-pub fn p905() {
+pub fn p1170() {
     let a: re::math::point::Point2<re::render::Model> = mk();
     let b: re::math::point::Point2<re::render::Model> = mk();
     let _ = re::math::Lerp::lerp(&a, &b, 0.5);
 }
 
-pub fn p906() {
+pub fn p1171() {
     let a: re::math::point::Point2<re::render::Model> = mk();
     let b: re::math::point::Point2<re::render::Model> = mk();
     let _ = a - b;
 }
 
-pub fn p922() {
+pub fn p1187() {
     let a: re::math::point::Point2<re::render::Model> = mk();
     let b: re::math::vec::Vec2<re::render::Model> = mk();
     let _ = a + b;
 }
 
-pub fn p932() {
+pub fn p1197() {
     let a: re::math::point::Point2<()> = mk();
     let b: re::math::point::Point2<()> = mk();
     let _ = re::math::Lerp::lerp(&a, &b, 0.5);
 }
 
-pub fn p933() {
+pub fn p1198() {
     let a: re::math::point::Point2<()> = mk();
     let b: re::math::point::Point2<()> = mk();
     let _ = a - b;
 }
 
-pub fn p947() {
+pub fn p1212() {
     let a: re::math::point::Point2<()> = mk();
     let b: re::math::vec::Vec2<()> = mk();
     let _ = a + b;
 }
 
-pub fn p959() {
+pub fn p1224() {
     let a: re::math::point::Point2<re::render::World> = mk();
     let b: re::math::point::Point2<re::render::World> = mk();
     let _ = re::math::Lerp::lerp(&a, &b, 0.5);
 }
 
-pub fn p960() {
+pub fn p1225() {
     let a: re::math::point::Point2<re::render::World> = mk();
     let b: re::math::point::Point2<re::render::World> = mk();
     let _ = a - b;
 }
 
-pub fn p972() {
+pub fn p1237() {
     let a: re::math::point::Point2<re::render::World> = mk();
     let b: re::math::vec::Vec2<re::render::World> = mk();
     let _ = a + b;
 }
 
-pub fn p986() {
+pub fn p1251() {
     let a: re::math::point::Point3<re::render::Model> = mk();
     let b: re::math::point::Point3<re::render::Model> = mk();
     let c: re::math::point::Point3<re::render::Model> = mk();
@@ -1330,31 +1629,31 @@ pub fn p986() {
     let _ = re::math::space::Affine::add(&c, &d);
 }
 
-pub fn p991() {
+pub fn p1256() {
     let a: re::math::point::Point3<re::render::Model> = mk();
     let b: re::math::point::Point3<re::render::Model> = mk();
     let _r: re::math::vec::Vec3<re::render::Model> = a - b;
 }
 
-pub fn p995() {
+pub fn p1260() {
     let a: re::math::point::Point3<re::render::Model> = mk();
     let b: re::math::point::Point3<re::render::Model> = mk();
     let _ = re::math::Lerp::lerp(&a, &b, 0.5);
 }
 
-pub fn p996() {
+pub fn p1261() {
     let a: re::math::point::Point3<re::render::Model> = mk();
     let b: re::math::point::Point3<re::render::Model> = mk();
     let _ = a - b;
 }
 
-pub fn p1024() {
+pub fn p1289() {
     let a: re::math::point::Point3<re::render::Model> = mk();
     let b: re::math::vec::Vec3<re::render::Model> = mk();
     let _ = a + b;
 }
 
-pub fn p1052() {
+pub fn p1317() {
     let a: re::math::point::Point3<()> = mk();
     let b: re::math::point::Point3<()> = mk();
     let c: re::math::point::Point3<()> = mk();
@@ -1362,31 +1661,31 @@ pub fn p1052() {
     let _ = re::math::space::Affine::add(&c, &d);
 }
 
-pub fn p1056() {
+pub fn p1321() {
     let a: re::math::point::Point3<()> = mk();
     let b: re::math::point::Point3<()> = mk();
     let _r: re::math::vec::Vec3<()> = a - b;
 }
 
-pub fn p1059() {
+pub fn p1324() {
     let a: re::math::point::Point3<()> = mk();
     let b: re::math::point::Point3<()> = mk();
     let _ = re::math::Lerp::lerp(&a, &b, 0.5);
 }
 
-pub fn p1060() {
+pub fn p1325() {
     let a: re::math::point::Point3<()> = mk();
     let b: re::math::point::Point3<()> = mk();
     let _ = a - b;
 }
 
-pub fn p1077() {
+pub fn p1342() {
     let a: re::math::point::Point3<()> = mk();
     let b: re::math::vec::Vec3<()> = mk();
     let _ = a + b;
 }
 
-pub fn p1117() {
+pub fn p1382() {
     let a: re::math::point::Point3<re::render::World> = mk();
     let b: re::math::point::Point3<re::render::World> = mk();
     let c: re::math::point::Point3<re::render::World> = mk();
@@ -1394,193 +1693,193 @@ pub fn p1117() {
     let _ = re::math::space::Affine::add(&c, &d);
 }
 
-pub fn p1120() {
+pub fn p1385() {
     let a: re::math::point::Point3<re::render::World> = mk();
     let b: re::math::point::Point3<re::render::World> = mk();
     let _r: re::math::vec::Vec3<re::render::World> = a - b;
 }
 
-pub fn p1122() {
+pub fn p1387() {
     let a: re::math::point::Point3<re::render::World> = mk();
     let b: re::math::point::Point3<re::render::World> = mk();
     let _ = re::math::Lerp::lerp(&a, &b, 0.5);
 }
 
-pub fn p1123() {
+pub fn p1388() {
     let a: re::math::point::Point3<re::render::World> = mk();
     let b: re::math::point::Point3<re::render::World> = mk();
     let _ = a - b;
 }
 
-pub fn p1129() {
+pub fn p1394() {
     let a: re::math::point::Point3<re::render::World> = mk();
     let b: re::math::vec::Vec3<re::render::World> = mk();
     let _ = a + b;
 }
 
-pub fn p1136() {
+pub fn p1401() {
     let a: re::math::vec::Vec2<re::render::Model> = mk();
     let b: re::math::vec::Vec2<re::render::Model> = mk();
     let _ = a + b;
 }
 
-pub fn p1137() {
+pub fn p1402() {
     let a: re::math::vec::Vec2<re::render::Model> = mk();
     let b: re::math::vec::Vec2<re::render::Model> = mk();
     let _ = a.dot(&b);
 }
 
-pub fn p1138() {
+pub fn p1403() {
     let a: re::math::vec::Vec2<re::render::Model> = mk();
     let b: re::math::vec::Vec2<re::render::Model> = mk();
     let _ = re::math::Lerp::lerp(&a, &b, 0.5);
 }
 
-pub fn p1139() {
+pub fn p1404() {
     let a: re::math::vec::Vec2<re::render::Model> = mk();
     let b: re::math::vec::Vec2<re::render::Model> = mk();
     let _ = a - b;
 }
 
-pub fn p1170() {
+pub fn p1435() {
     let a: re::math::vec::Vec2<()> = mk();
     let b: re::math::vec::Vec2<()> = mk();
     let _ = a + b;
 }
 
-pub fn p1171() {
+pub fn p1436() {
     let a: re::math::vec::Vec2<()> = mk();
     let b: re::math::vec::Vec2<()> = mk();
     let _ = a.dot(&b);
 }
 
-pub fn p1172() {
+pub fn p1437() {
     let a: re::math::vec::Vec2<()> = mk();
     let b: re::math::vec::Vec2<()> = mk();
     let _ = re::math::Lerp::lerp(&a, &b, 0.5);
 }
 
-pub fn p1173() {
+pub fn p1438() {
     let a: re::math::vec::Vec2<()> = mk();
     let b: re::math::vec::Vec2<()> = mk();
     let _ = a - b;
 }
 
-pub fn p1204() {
+pub fn p1469() {
     let a: re::math::vec::Vec2<re::render::World> = mk();
     let b: re::math::vec::Vec2<re::render::World> = mk();
     let _ = a + b;
 }
 
-pub fn p1205() {
+pub fn p1470() {
     let a: re::math::vec::Vec2<re::render::World> = mk();
     let b: re::math::vec::Vec2<re::render::World> = mk();
     let _ = a.dot(&b);
 }
 
-pub fn p1206() {
+pub fn p1471() {
     let a: re::math::vec::Vec2<re::render::World> = mk();
     let b: re::math::vec::Vec2<re::render::World> = mk();
     let _ = re::math::Lerp::lerp(&a, &b, 0.5);
 }
 
-pub fn p1207() {
+pub fn p1472() {
     let a: re::math::vec::Vec2<re::render::World> = mk();
     let b: re::math::vec::Vec2<re::render::World> = mk();
     let _ = a - b;
 }
 
-pub fn p1238() {
+pub fn p1503() {
     let a: re::math::vec::Vec3<re::render::Model> = mk();
     let b: re::math::vec::Vec3<re::render::Model> = mk();
     let _ = a + b;
 }
 
-pub fn p1239() {
+pub fn p1504() {
     let a: re::math::vec::Vec3<re::render::Model> = mk();
     let b: re::math::vec::Vec3<re::render::Model> = mk();
     let _ = a.dot(&b);
 }
 
-pub fn p1240() {
+pub fn p1505() {
     let a: re::math::vec::Vec3<re::render::Model> = mk();
     let b: re::math::vec::Vec3<re::render::Model> = mk();
     let _ = re::math::Lerp::lerp(&a, &b, 0.5);
 }
 
-pub fn p1241() {
+pub fn p1506() {
     let a: re::math::vec::Vec3<re::render::Model> = mk();
     let b: re::math::vec::Vec3<re::render::Model> = mk();
     let _ = a - b;
 }
 
-pub fn p1273() {
+pub fn p1538() {
     let a: re::math::vec::Vec3<()> = mk();
     let b: re::math::vec::Vec3<()> = mk();
     let _ = a + b;
 }
 
-pub fn p1274() {
+pub fn p1539() {
     let a: re::math::vec::Vec3<()> = mk();
     let b: re::math::vec::Vec3<()> = mk();
     let _ = a.dot(&b);
 }
 
-pub fn p1275() {
+pub fn p1540() {
     let a: re::math::vec::Vec3<()> = mk();
     let b: re::math::vec::Vec3<()> = mk();
     let _ = re::math::Lerp::lerp(&a, &b, 0.5);
 }
 
-pub fn p1276() {
+pub fn p1541() {
     let a: re::math::vec::Vec3<()> = mk();
     let b: re::math::vec::Vec3<()> = mk();
     let _ = a - b;
 }
 
-pub fn p1281() {
+pub fn p1546() {
     let a: re::math::vec::Vec3<crate::UserTag> = mk();
     let b: re::math::vec::Vec3<crate::UserTag> = mk();
     let _ = a + b;
 }
 
-pub fn p1282() {
+pub fn p1547() {
     let a: re::math::vec::Vec3<crate::UserTag> = mk();
     let b: re::math::vec::Vec3<crate::UserTag> = mk();
     let _ = a.dot(&b);
 }
 
-pub fn p1283() {
+pub fn p1548() {
     let a: re::math::vec::Vec3<crate::UserTag> = mk();
     let b: re::math::vec::Vec3<crate::UserTag> = mk();
     let _ = re::math::Lerp::lerp(&a, &b, 0.5);
 }
 
-pub fn p1284() {
+pub fn p1549() {
     let a: re::math::vec::Vec3<crate::UserTag> = mk();
     let b: re::math::vec::Vec3<crate::UserTag> = mk();
     let _ = a - b;
 }
 
-pub fn p1319() {
+pub fn p1584() {
     let a: re::math::vec::Vec3<re::render::World> = mk();
     let b: re::math::vec::Vec3<re::render::World> = mk();
     let _ = a + b;
 }
 
-pub fn p1320() {
+pub fn p1585() {
     let a: re::math::vec::Vec3<re::render::World> = mk();
     let b: re::math::vec::Vec3<re::render::World> = mk();
     let _ = a.dot(&b);
 }
 
-pub fn p1321() {
+pub fn p1586() {
     let a: re::math::vec::Vec3<re::render::World> = mk();
     let b: re::math::vec::Vec3<re::render::World> = mk();
     let _ = re::math::Lerp::lerp(&a, &b, 0.5);
 }
 
-pub fn p1322() {
+pub fn p1587() {
     let a: re::math::vec::Vec3<re::render::World> = mk();
     let b: re::math::vec::Vec3<re::render::World> = mk();
     let _ = a - b;
